@@ -95,6 +95,7 @@ FAMILIES = ["sl-nst", "sl-npa", "sl-ns", "sl-np", "vj-mgga", "vj-gga", "vi-mgga"
 NLDF_FAMS = {"vj-mgga", "vj-gga", "vi-mgga", "vi-gga", "vij-mgga", "vij-gga", "vk-mgga", "vk-gga", "vj+sdmx", "vj-nst", "vj-expnt"}
 ONE_ATOM = {"rks": ["He"], "uks": ["Li", "H", "He"]}
 MULTI_ATOM = {"rks": ["HF", "LiH", "H2O", "H2"], "uks": ["NH2", "OH-", "CH3", "O2"]}
+MULTI_ATOM_QUICK = {"rks": ["HF", "LiH", "H2O", "H2"], "uks": ["NH2", "OH-", "LiH", "HF"]}
 EVAL_CLASSES = ["RBFEvaluator", "AntisymRBFEvaluator", "SpinRBFEvaluator"]
 UNSAFE_KINDS = ["X1ctrl-wider-than-kernel", "X1ctrl-narrower-than-kernel", "alpha-shorter-than-X1ctrl",
                 "alpha-longer-than-X1ctrl"]
@@ -116,14 +117,18 @@ def gen_cases(tier, seed):
              "idx": idx[0], "_threads": threads, "_weight": float(weight), "_timeout": timeout}
         if variant != "plain":
             c["_variant"] = variant
+        if threads > 1:
+            # idle OpenMP threads sleep instead of spinning: the drivers make thousands of tiny parallel regions and the
+            # checks of several properties may share the machine (wall time is never a verdict, this only bounds it)
+            c["_env"] = {"OMP_WAIT_POLICY": "passive"}
         c.update(kw)
         cases.append(c)
 
     # (i) bookkeeping
     for i in range(6 * m):
-        add("book-settings", "book-settings", weight=1.0, start=i, n=len(BOOK_CLASSES))
+        add("book-settings", "book-settings", weight=1.0, threads=1, start=i, n=len(BOOK_CLASSES))
     for i in range(8 * m):
-        add("book-fs", "book-fs", weight=1.5, masks=[(2 * i) % 16, (2 * i + 1) % 16], nvar=6)
+        add("book-fs", "book-fs", weight=1.5, threads=1, masks=[(2 * i) % 16, (2 * i + 1) % 16], nvar=6)
     for i in range(2 * m):
         add("book-gen-pt", "book-gen-pt", weight=3.0, n=10, start=i)
     e2e_pool = [("vj-mgga", "rks"), ("vi-gga", "uks"), ("vij-mgga", "rks"), ("vk-gga", "uks"), ("vj+sdmx", "rks"),
@@ -138,7 +143,7 @@ def gen_cases(tier, seed):
     # (ii) rejection
     nparts = 10 if q else 40
     for p in range(nparts):
-        add("rej-settings", "rej-settings", weight=1.0, part=p, nparts=nparts, reps=2 if q else 8)
+        add("rej-settings", "rej-settings", weight=1.0, threads=1, part=p, nparts=nparts, reps=2 if q else 8)
     nparts = 4 if q else 20
     for p in range(nparts):
         add("rej-plans", "rej-plans", weight=3.0, part=p, nparts=nparts, reps=1 if q else 4)
@@ -169,7 +174,7 @@ def gen_cases(tier, seed):
     for r in range(reps):
         for k, (f, s) in enumerate(pairs):
             allc.append(_e2e_cfg(rng, f, s, k + r, cheap=False, thorough=not q))
-    per = 7 if q else 6
+    per = 4 if q else 6
     for i in range(0, len(allc), per):
         chunk = allc[i:i + per]
         add("asan-e2e", "asan-e2e", variant="asan", weight=sum(_e2e_weight(c) for c in chunk), timeout=1800, cfgs=chunk)
@@ -197,18 +202,21 @@ def gen_cases(tier, seed):
         unsafe = [u for u in unsafe if u[0] == "RBFEvaluator" or u[1] in ("X1ctrl-wider-than-kernel", "alpha-shorter-than-X1ctrl")]
     for c, k in unsafe:
         add("asan-unsafe", "asan-unsafe-%s-%s" % (c, k), variant="asan", weight=2.0, timeout=300, cls=c, probe=k)
+    # the sanitizer drivers are the long pole: schedule their worker group first
+    cases.sort(key=lambda c: 0 if c.get("_variant") == "asan" else 1)
     return cases
 
 
 def _e2e_cfg(rng, family, spin, k, cheap=False, thorough=False):
     one = (k % 2 == 0)
-    pool = (ONE_ATOM if one else MULTI_ATOM)[spin]
+    pool = (ONE_ATOM if one else (MULTI_ATOM if thorough else MULTI_ATOM_QUICK))[spin]
     mol = pool[int(rng.integers(len(pool)))]
     if cheap and mol in ("H2O", "CH3", "O2"):
         mol = "HF" if spin == "rks" else "NH2"
-    c = {"family": family, "spin": spin, "mol": mol, "basis": str(rng.choice(["sto-3g", "6-31g"], p=[0.6, 0.4])),
-         "level": 0 if (cheap or mol in ("H2O", "CH3", "O2")) else int(rng.integers(0, 2)),
-         "max_memory": int(rng.choice([2000, 1, 3])), "nset": int(rng.choice([1, 1, 2, 3])),
+    big = mol in ("H2O", "CH3", "O2")
+    c = {"family": family, "spin": spin, "mol": mol, "basis": str(rng.choice(["sto-3g", "6-31g"], p=[0.75, 0.25] if not thorough else [0.5, 0.5])),
+         "level": 0 if (cheap or big) else int(rng.random() < (0.5 if thorough else 0.25)),
+         "max_memory": int(rng.choice([2000, 1, 3])), "nset": int(rng.choice([1, 1, 1, 2, 3])),
          "mode": str(rng.choice(["SEP", "NPOL", "POL"], p=[0.6, 0.2, 0.2])),
          "evaluator": str(rng.choice(["rbf", "kernel", "linear", "rbf+linear"], p=[0.55, 0.15, 0.15, 0.15]))}
     if family in NLDF_FAMS:
@@ -218,6 +226,8 @@ def _e2e_cfg(rng, family, spin, k, cheap=False, thorough=False):
             c["aux_lambd"] = float(rng.choice([1.8, 2.0]))
     if cheap:
         c["nset"] = 1
+        c["basis"] = "sto-3g"
+    if c["level"] == 1 and c["basis"] == "6-31g" and family in NLDF_FAMS and not one:
         c["basis"] = "sto-3g"
     return c
 
@@ -237,12 +247,7 @@ def run_case(case, rec):
     rng = rng_for(case["seed"], PROP_NO, case["idx"])
     rec.tag("variant", boot.VARIANT)
     rec.tag("case_kind", case["kind"])
-    fn = {"book-settings": _run_book_settings, "book-fs": _run_book_fs, "book-gen-pt": _run_book_gen_pt,
-          "book-gen-mol": _run_book_gen_mol, "rej-settings": _run_rej_settings, "rej-plans": _run_rej_plans,
-          "rej-mol": _run_rej_mol, "expnt": _run_expnt, "expnt-e2e": _run_expnt_e2e, "asan-e2e": _run_asan_e2e,
-          "asan-lmax": _run_asan_lmax, "asan-eval": _run_asan_eval, "asan-sdmx": _run_asan_sdmx, "asan-fft": _run_asan_fft,
-          "asan-misc": _run_asan_misc, "asan-shape-eval": _run_asan_shape_eval, "asan-shape-nldf": _run_asan_shape_nldf,
-          "asan-unsafe": _run_asan_unsafe}[case["kind"]]
+    fn = globals()["_run_" + case["kind"].replace("-", "_")]
     strict = case["kind"].startswith("asan-") and case["kind"] not in ("asan-unsafe", "asan-shape-eval", "asan-shape-nldf")
     n0 = len(boot.STRICT_ERRORS)
     boot.MODE["strict"] = bool(strict)
@@ -488,9 +493,9 @@ def _draw_settings(label, rng, safe=False):
     st = _st()
     if label.startswith("sl:"):
         return "SemilocalSettings", st.SemilocalSettings(label[3:]), {"mode": label[3:]}
-    if label in NLDF_CLS:
-        kw = _kw_nldf(label, rng, safe=safe)
-        return NLDF_CLS[label], _mk_nldf(label, kw), kw
+    if label[1:] in NLDF_CLS and label[0] == "v":
+        kw = _kw_nldf(label[1:], rng, safe=safe)
+        return NLDF_CLS[label[1:]], _mk_nldf(label[1:], kw), kw
     if label == "fl":
         kw = _kw_fl(rng, safe=safe)
         return "FracLaplSettings", st.FracLaplSettings(**kw), kw
@@ -532,7 +537,7 @@ def _run_book_settings(case, rec, rng):
         label = BOOK_CLASSES[(case["start"] + j) % len(BOOK_CLASSES)]
         cname, s, kw = _draw_settings(label, rng)
         rec.tag("settings_class", cname)
-        if label in NLDF_CLS:
+        if label in ("vi", "vj", "vij", "vk"):
             rec.tag("nldf_variant", "%s/%s/%s" % (cname, kw["sl_level"], kw["rho_mult"]))
         nf = _counts(rec, s, cname, {"class": cname, "kwargs": kw})
         rec.nontrivial("book|%s|%d" % (label, j))
@@ -692,6 +697,7 @@ def _run_book_gen_pt(case, rec, rng):
         ns_ = _mk_nldf(ver, kwn)
         pcls = ["gaussian", "spline"][(j // 2 + case["start"]) % 2]
         p = _nldf_plan(ns_, nspin, rng, cls=pcls)
+        ng = int(rng.choice([64, 97]))  # eval_vxc_vj_ takes nalpha from the grid axis: works only for ngrids >= nalpha
         rd = _pointwise(rng, ng, 1, kwn["sl_level"])[0]
         ncol = p.num_vi_ints + (0 if ver == "i" else p.nalpha)
         fq = np.ascontiguousarray(rng.normal(size=(ng, ncol)))
@@ -707,3 +713,1537 @@ def _run_book_gen_pt(case, rec, rng):
         if sample is None:
             sample = {"oracle": "generator rows", "FracLaplSettings": kw, "fl_feat_shape": list(f.shape), "nldf": kwn, "nldf_feat_shape": list(feat.shape)}
     rec.set_sample(sample)
+
+
+# ----------------------------------------------------------------------------------------------------------------
+# molecule-level builders shared by the bookkeeping, exponent and ASan drivers
+# ----------------------------------------------------------------------------------------------------------------
+def _build_e2e(cfg, rng, lmax=None, nldf_extra=None):
+    """(mol, model, ks): synthetic model of cfg['family'] wrapped into a CIDER Kohn-Sham object; optional CiderGrids lmax and
+    extra keyword arguments for PyscfNLDFGenerator.from_mol_and_settings."""
+    from vlib import gen
+    mol = gen.make_mol(cfg["mol"], cfg.get("basis", "sto-3g"), rng, jitter=0.03)
+    model = gen.build_model(cfg, rng)
+    nk = {}
+    for a, b in (("plan_type", "plan_type"), ("interp", "interpolator_type"), ("aux_lambd", "aux_lambd")):
+        if cfg.get(a):
+            nk[b] = cfg[a]
+    nk.update(nldf_extra or {})
+    if lmax is None:
+        ks = gen.make_ks(mol, model, spin=cfg.get("spin", "rks"), level=cfg.get("level", 0), nldf_kwargs=nk or None)
+        return mol, model, ks
+    import pyscf.dft.gen_grid as gg
+    from pyscf import dft
+
+    from ciderpress.pyscf.dft import make_cider_calc
+    from ciderpress.pyscf.gen_cider_grid import CiderGrids
+    from ciderpress.pyscf.nldf_convolutions import PySCFNLDFInitializer
+    ks = dft.RKS(mol) if cfg.get("spin", "rks") == "rks" else dft.UKS(mol)
+    ks.grids.level = cfg.get("level", 0)
+    init = PySCFNLDFInitializer(model.settings.nldf_settings, **nk) if model.settings.has_nldf else None
+    ks = make_cider_calc(ks, model, xmix=1.0, nldf_init=init)
+    g = CiderGrids(mol, lmax=lmax)
+    g.level = cfg.get("level", 0)
+    g.prune = gg.nwchem_prune
+    ks.grids = g
+    ks.build()
+    ks.grids.build(with_non0tab=True)
+    return mol, model, ks
+
+
+def _dms(mol, rng, nspin, nset):
+    from vlib import gen
+    if nset == 1:
+        return gen.psd_dm(mol, rng, nspin)
+    ds = [gen.psd_dm(mol, rng, nspin) for _ in range(nset)]
+    return np.stack(ds) if nspin == 1 else np.stack(ds, axis=1)
+
+
+def _nr(ks, dm, nspin, max_memory=2000):
+    ni = ks._numint
+    if nspin == 1:
+        return ni.nr_rks(ks.mol, ks.grids, ks.xc, dm, max_memory=max_memory)
+    return ni.nr_uks(ks.mol, ks.grids, ks.xc, dm, max_memory=max_memory)
+
+
+def _generator_rows(rec, mol, model, ks, dm1, nspin, rng, tagpfx=""):
+    """Row counts of the real generators held by the integrator after a nr_rks / nr_uks call (dm1: one density matrix set)."""
+    from pyscf.dft import numint as pn
+    ni = ks._numint
+    settings = model.settings
+    out = {}
+    if getattr(ni, "nldfgen", None) is not None:
+        g = ni.nldfgen
+        lev = settings.nldf_settings.sl_level
+        ao = pn.eval_ao(mol, ks.grids.coords, deriv=1)
+        for s in range(nspin):
+            d = dm1 if nspin == 1 else dm1[s]
+            rho = pn.eval_rho(mol, ao, d, xctype=lev, with_lapl=False)
+            rho[:, ks.grids.weights == 0] = 0.0
+            f = g.get_features(rho, spin=s)
+            cname = type(settings.nldf_settings).__name__
+            rec.require("generator_rows[PyscfNLDFGenerator]", f.shape == (settings.nldf_settings.nfeat, ks.grids.weights.size),
+                        mechanism="PyscfNLDFGenerator.get_features:rows!=nfeat[%s]" % cname,
+                        detail={"shape": list(f.shape), "nfeat": settings.nldf_settings.nfeat, "ngrids": int(ks.grids.weights.size)})
+            p = g.get_potential(rng.normal(size=f.shape) * ks.grids.weights, spin=s)
+            rec.require("generator_rows[PyscfNLDFGenerator.get_potential]", p.shape == rho.shape,
+                        mechanism="PyscfNLDFGenerator.get_potential:shape[%s]" % cname, detail={"shape": list(p.shape), "rho": list(rho.shape)})
+            out["nldf"] = list(f.shape)
+        rec.tag("generator", tagpfx + "PyscfNLDFGenerator.get_features[%s,%s]" % (type(settings.nldf_settings).__name__, type(g.plan).__name__))
+    if getattr(ni, "sdmxgen", None) is not None:
+        coords = np.ascontiguousarray(ks.grids.coords[: int(rng.choice([1, 57, 300]))])
+        f = np.asarray(ni.sdmxgen.get_features(dm1, mol, coords))
+        want = (settings.sdmx_settings.nfeat, coords.shape[0]) if nspin == 1 else (2, settings.sdmx_settings.nfeat, coords.shape[0])
+        rec.require("generator_rows[EXXSphGenerator]", f.shape == want, mechanism="EXXSphGenerator.get_features:rows!=nfeat[%s]" % type(settings.sdmx_settings).__name__,
+                    detail={"shape": list(f.shape), "want": list(want)})
+        rec.tag("generator", tagpfx + "EXXSphGenerator.get_features[%s]" % type(settings.sdmx_settings).__name__)
+        out["sdmx"] = list(f.shape)
+    return out
+
+
+def _drive_e2e(rec, cfg, rng, key, lmax=None):
+    """One accepted end-to-end call (+ batched / blocked variants) and the generator row oracles.  Returns sample dict."""
+    from vlib import boot
+    nspin = 1 if cfg["spin"] == "rks" else 2
+    for k in ("family", "spin", "mol", "basis", "level", "plan_type", "interp", "mode", "evaluator", "max_memory", "nset", "aux_lambd"):
+        if cfg.get(k) is not None:
+            rec.tag("e2e_" + k, cfg[k])
+    if lmax is not None:
+        rec.tag("grids_lmax", lmax)
+    c0 = sum(boot.counters().values())
+    try:
+        mol, model, ks = _build_e2e(cfg, rng, lmax=lmax)
+        rec.tag("natm", mol.natm)
+        dm = _dms(mol, rng, nspin, int(cfg.get("nset", 1)))
+        n, e, v = _nr(ks, dm, nspin, max_memory=cfg.get("max_memory", 2000))
+    except Exception as ex:  # noqa: BLE001 - an admissible call that raises is outside C18: the sub-case is not conclusive
+        rec.note("valid_call_raised[%s]" % key, "%s: %s" % (type(ex).__name__, str(ex)[:300]))
+        rec.set_inconclusive("admissible end-to-end call raised %s (%s)" % (type(ex).__name__, key))
+        return None
+    nset = int(cfg.get("nset", 1))
+    v = np.asarray(v)
+    nao = mol.nao
+    want = {(1, 1): (nao, nao), (2, 1): (2, nao, nao)}.get((nspin, nset), (nset, nao, nao) if nspin == 1 else (2, nset, nao, nao))
+    rec.require("e2e_vmat_shape", v.shape == want, mechanism="nr_%s:vmat-shape[nset=%s]" % (cfg["spin"], "1" if nset == 1 else ">1"),
+                detail={"got": list(v.shape), "want": list(want)})
+    rec.require("e2e_finite", bool(np.all(np.isfinite(v)) and np.all(np.isfinite(np.asarray(e, dtype=float)))),
+                mechanism="nr_%s:nonfinite[%s]" % (cfg["spin"], cfg["family"]))
+    dm1 = dm if nset == 1 else (dm[0] if nspin == 1 else dm[:, 0])
+    rows = _generator_rows(rec, mol, model, ks, dm1, nspin, rng)
+    fs = model.settings
+    rec.require("model_nfeat", int(model.nfeat) == int(fs.nfeat) == int(fs.normalizers.nfeat), mechanism="MappedXC:nfeat!=settings.nfeat")
+    if sum(boot.counters().values()) > c0:
+        rec.nontrivial(key)
+    return {"cfg": cfg, "excsum": np.atleast_1d(np.asarray(e, dtype=float)).tolist(), "ngrids": int(ks.grids.weights.size), "generator_shapes": rows,
+            "settings_nfeat": int(fs.nfeat)}
+
+
+def _sdmx_generators(rec, rng, n, keypfx, mols=None):
+    """EXXSphGenerator (fast and slow implementation) for every SDMX settings class, nspin 1/2, 2-D and batched dm."""
+    from ciderpress.pyscf import sdmx as sdmx_fast
+    from ciderpress.pyscf import sdmx_slow
+    from vlib import gen
+    sample = None
+    for j in range(n):
+        kind = SDMX_KINDS[j % len(SDMX_KINDS)]
+        kw = _kw_sdmx(kind, rng)
+        s = _mk_sdmx(kind, kw)
+        nspin = 1 + (j // len(SDMX_KINDS) + j) % 2
+        mname = (mols or ["HF", "He", "LiH"] if nspin == 1 else mols or ["NH2", "Li", "H"])[j % 3]
+        mol = gen.make_mol(mname, _pick(rng, ["sto-3g", "6-31g"]), rng, jitter=0.03)
+        dm = gen.psd_dm(mol, rng, nspin)
+        ng = int(rng.choice([1, 2, 57, 256]))
+        coords = np.ascontiguousarray(rng.normal(size=(ng, 3)) * 1.5)
+        for mod, mname2 in ((sdmx_fast, "fast"), (sdmx_slow, "slow")):
+            g = mod.EXXSphGenerator.from_settings_and_mol(s, nspin, mol)
+            f = np.asarray(g.get_features(dm, mol, coords))
+            want = (s.nfeat, ng) if nspin == 1 else (2, s.nfeat, ng)
+            rec.require("generator_rows[EXXSphGenerator]", f.shape == want, mechanism="EXXSphGenerator[%s].get_features:rows!=nfeat[%s]" % (mname2, SDMX_CLS[kind]),
+                        detail={"kwargs": str(kw), "shape": list(f.shape), "want": list(want)})
+            if mname2 == "fast":
+                vm = np.zeros_like(dm)
+                g.get_vxc_(vm, rng.normal(size=f.shape))
+                if nspin == 1:
+                    dmb = np.stack([dm, dm * 0.5, dm])
+                    fb = np.asarray(g.get_features(dmb, mol, coords))
+                    rec.require("generator_rows[EXXSphGenerator,batched]", fb.shape == (3, s.nfeat, ng),
+                                mechanism="EXXSphGenerator[fast].get_features:rows!=nfeat[batched,%s]" % SDMX_CLS[kind], detail={"shape": list(fb.shape)})
+            rec.tag("generator", "EXXSphGenerator[%s].get_features[%s]" % (mname2, SDMX_CLS[kind]))
+        rec.tag("sdmx_ngrids", ng)
+        rec.nontrivial("%s|%s|%d" % (keypfx, kind, j))
+        if sample is None:
+            sample = {"oracle": "EXXSphGenerator rows", "class": SDMX_CLS[kind], "kwargs": str(kw), "nspin": nspin, "mol": mname, "shape": list(f.shape)}
+    return sample
+
+
+def _analyzer(rng, spin, mname=None, level=0):
+    import contextlib
+    import io
+
+    from ciderpress.pyscf.analyzers import RHFAnalyzer, UHFAnalyzer
+    from vlib import gen
+    mname = mname or _pick(rng, ["HF", "LiH", "He"] if spin == "rhf" else ["NH2", "Li", "OH-"])
+    mol = gen.make_mol(mname, "sto-3g", rng, jitter=0.03)
+    dm = gen.psd_dm(mol, rng, 1 if spin == "rhf" else 2)
+    with contextlib.redirect_stdout(io.StringIO()):
+        ana = (RHFAnalyzer if spin == "rhf" else UHFAnalyzer)(mol, dm, grids_level=level)
+    return mname, ana
+
+
+def _descriptors(rec, rng, spin, n, keypfx, with_orbs=False):
+    """ciderpress.pyscf.descriptors.get_descriptors with a prepared analyzer (never perform_full_analysis)."""
+    import contextlib
+    import io
+
+    from ciderpress.pyscf.descriptors import get_descriptors
+    st = _st()
+    mname, ana = _analyzer(rng, spin)
+    nsp = 1 if spin == "rhf" else 2
+    ng = ana.grids.weights.size
+    sample = None
+    kinds = ["sl", "nldf", "fl", "sdmx", "nldf", "sdmx"]
+    for j in range(n):
+        kind = kinds[j % len(kinds)]
+        kwargs = {}
+        if kind == "sl":
+            s = st.SemilocalSettings(["nst", "npa", "ns", "np"][j % 4])
+            label = "SemilocalSettings"
+        elif kind == "nldf":
+            ver = ["j", "i", "k", "ij"][(j // 2) % 4]
+            s = _mk_nldf(ver, _kw_nldf(ver, rng))
+            kwargs = {"inner_grids_level": 0, "plan_type": _pick(rng, ["gaussian", "spline"]), "lmax": int(_pick(rng, [4, 6, 10]))}
+            label = NLDF_CLS[ver]
+        elif kind == "fl":
+            s = st.FracLaplSettings(**_kw_fl(rng))
+            label = "FracLaplSettings"
+        else:
+            k2 = SDMX_KINDS[(j // 2) % len(SDMX_KINDS)]
+            s = _mk_sdmx(k2, _kw_sdmx(k2, rng))
+            label = SDMX_CLS[k2]
+        try:
+            with contextlib.redirect_stdout(io.StringIO()):
+                d = get_descriptors(ana, s, **kwargs)
+        except Exception as ex:  # noqa: BLE001
+            rec.note("valid_call_raised[%s|%d]" % (label, j), "%s: %s" % (type(ex).__name__, str(ex)[:300]))
+            rec.set_inconclusive("get_descriptors raised %s for valid %s" % (type(ex).__name__, label))
+            continue
+        rec.require("generator_rows[get_descriptors]", d.shape == (nsp, s.nfeat, ng), mechanism="get_descriptors:rows!=nfeat[%s]" % label,
+                    detail={"shape": list(d.shape), "want": [nsp, int(s.nfeat), int(ng)], "kwargs": str(kwargs)})
+        rec.tag("generator", "get_descriptors[%s,%s]" % (label, spin))
+        rec.nontrivial("%s|%s|%d" % (keypfx, label, j))
+        if sample is None and kind != "sl":
+            sample = {"oracle": "get_descriptors rows", "mol": mname, "analyzer": spin, "settings": label, "shape": list(d.shape), "nfeat": int(s.nfeat)}
+    return sample
+
+
+def _run_book_gen_mol(case, rec, rng):
+    sub = case["sub"]
+    if sub == "nldf":
+        sample = None
+        for j, cfg in enumerate(case["cfgs"]):
+            s = _drive_e2e(rec, cfg, rng, "e2e|%d|%s|%s" % (j, cfg["family"], cfg["spin"]))
+            sample = sample or s
+        rec.set_sample(sample)
+    elif sub == "sdmx":
+        rec.set_sample(_sdmx_generators(rec, rng, case["n"], "sdmxgen"))
+    else:
+        rec.set_sample(_descriptors(rec, rng, case["spin"], case["n"], "desc"))
+
+
+# ----------------------------------------------------------------------------------------------------------------
+# (ii) rejection engine
+# ----------------------------------------------------------------------------------------------------------------
+def _snap():
+    """Call counters of the C entry points that consume array arguments (pure getters such as get_atco_nao, which the
+    wrappers call while VALIDATING, and destructors, which run whenever the GC decides, are not 'entering C with the value')."""
+    from vlib import boot
+    return {k: v for k, v in boot.counters().items() if "@fnptr" not in k and not k.split(".")[-1].startswith(("get_", "free_"))}
+
+
+def _attempt(build, uses):
+    """Run constructor + uses.  Returns dict(outcome, stage, exc, msg, entered) where entered = C entry points whose
+    counter moved inside the stage that raised (destructors excluded: they run whenever the GC decides)."""
+    stage = "ctor"
+    before = _snap()
+    try:
+        obj = build()
+        for name, fn in uses:
+            stage = name
+            before = _snap()
+            fn(obj)
+    except Exception as e:  # noqa: BLE001 - any Exception subclass is a rejection
+        after = _snap()
+        entered = sorted(k for k in after if after[k] != before.get(k, 0))
+        return {"outcome": "rejected", "stage": stage, "exc": type(e).__name__, "msg": str(e)[:160], "entered": entered}
+    return {"outcome": "accepted", "stage": None, "exc": None, "msg": "", "entered": []}
+
+
+def _judge(rec, cls, kind, valid, invalid, key, before_c=True, assert_=True, detail=None):
+    """valid / invalid = (build, uses).  Decides one corruption sub-case by the acceptance rule."""
+    detail = dict(detail) if isinstance(detail, dict) else {"arguments": detail}
+    base = _attempt(*valid)
+    if not rec.require("valid_base_accepted", base["outcome"] == "accepted", mechanism="%s:rejects-valid-arguments" % cls,
+                       detail=dict(detail, kind=kind, stage=base["stage"], exc=base["exc"], msg=base["msg"])):
+        return None
+    r = _attempt(*invalid)
+    ans = "ACCEPTED" if r["outcome"] == "accepted" else "%s@%s" % (r["exc"], r["stage"])
+    if not assert_:
+        rec.tag("observation", "%s:%s=%s" % (cls, kind, ans))
+        return r
+    rec.tag("answer", "%s:%s=%s" % (cls, kind, ans))
+    rec.tag("corrupted_class", cls)
+    rec.tag("corruption_kind", kind)
+    rec.require("rejected[%s]" % kind.split(":")[0], r["outcome"] == "rejected", mechanism="%s:accepts-%s" % (cls, kind),
+                detail=dict(detail, note="constructor and every consuming use returned normally"))
+    if r["outcome"] == "rejected":
+        rec.tag("rejection_exception", r["exc"])
+        rec.tag("rejection_stage", "constructor" if r["stage"] == "ctor" else "first use")
+        if before_c:
+            rec.require("rejected_before_C", not r["entered"], mechanism="%s:enters-C-before-rejecting-%s" % (cls, kind),
+                        detail=dict(detail, entered=r["entered"], exc=r["exc"], stage=r["stage"]))
+    rec.nontrivial(key)
+    return r
+
+
+def _settings_uses(extra=()):
+    return [("nfeat", lambda s: s.nfeat), ("get_feat_usps", lambda s: s.get_feat_usps()), ("ueg_vector", lambda s: s.ueg_vector(0.37)),
+            ("get_reasonable_normalizer", lambda s: s.get_reasonable_normalizer())] + list(extra)
+
+
+# ---- corruptors of NLDF keyword sets: (kw, rng, ver) -> bad kw | (valid kw, bad kw) | None -----------------------
+def _level_n(kw):
+    return 3 if kw["sl_level"] == "MGGA" else 2
+
+
+def _c_field(field, values):
+    def f(kw, rng, ver):
+        kw[field] = _pick(rng, values)
+        return kw
+    return f
+
+
+def _bad_param_list(p, op, kw, rng):
+    p = list(p)
+    if op == "too-few":
+        return p[:-1] if len(p) == _level_n(kw) else p[: _level_n(kw) - 1]
+    if op == "too-many":
+        return p + ([0.5] if kw["sl_level"] == "MGGA" else [0.5, 0.5])  # GGA: the docs allow tau_mul to be present
+    if op == "empty":
+        return []
+    if op == "a0-zero":
+        p[0] = 0.0
+    elif op == "a0-negative":
+        p[0] = -abs(p[0])
+    elif op == "grad_mul-negative":
+        p[1] = -float(rng.uniform(0.01, 0.1))
+    elif op == "tau_mul-negative":
+        if kw["sl_level"] != "MGGA":
+            return None
+        p[2] = -float(rng.uniform(0.01, 0.05))
+    return p
+
+
+def _c_theta(op):
+    def f(kw, rng, ver):
+        p = _bad_param_list(kw["theta_params"], op, kw, rng)
+        if p is None:
+            return None
+        kw["theta_params"] = p
+        return kw
+    return f
+
+
+def _c_fparams(op):
+    def f(kw, rng, ver):
+        fp, fs = NLDF_FIELDS[ver]["params"], NLDF_FIELDS[ver].get("specs")
+        k = int(rng.integers(len(kw[fp])))
+        if fs is not None and kw[fs][k] == "se_erf_rinv" and op in ("too-few",):
+            kw[fs][k] = "se"
+            kw[fp][k] = kw[fp][k][:-1]
+        good = copy.deepcopy(kw)
+        p = kw[fp][k]
+        erf = fs is not None and kw[fs][k] == "se_erf_rinv"
+        core = p[:-1] if erf else p
+        bad = _bad_param_list(core, op, kw, rng)
+        if bad is None:
+            return None
+        kw[fp][k] = bad + ([p[-1]] if erf and op not in ("too-many", "empty") else [])
+        return good, kw
+    return f
+
+
+def _c_erf_without_mul(kw, rng, ver):
+    fp, fs = NLDF_FIELDS[ver]["params"], NLDF_FIELDS[ver]["specs"]
+    k = int(rng.integers(len(kw[fp])))
+    if kw[fs][k] != "se_erf_rinv":
+        kw[fs][k] = "se_erf_rinv"
+        kw[fp][k] = kw[fp][k][: _level_n(kw)] + [float(rng.uniform(0.5, 3.0))]
+    good = copy.deepcopy(kw)
+    kw[fp][k] = kw[fp][k][:-1]
+    return good, kw
+
+
+def _c_nsets(delta):
+    def f(kw, rng, ver):
+        fp = NLDF_FIELDS[ver]["params"]
+        if delta > 0:
+            kw[fp] = kw[fp] + [_params(rng, kw["sl_level"])]
+        else:
+            kw[fp] = kw[fp][:-1]
+        return kw
+    return f
+
+
+def _c_spec(which, values):
+    def f(kw, rng, ver):
+        fld = NLDF_FIELDS[ver][which]
+        k = int(rng.integers(len(kw[fld])))
+        kw[fld] = list(kw[fld])
+        kw[fld][k] = _pick(rng, values)
+        return kw
+    return f
+
+
+def _c_dots(op, field=None, nfield=None):
+    def f(kw, rng, ver):
+        fld = field or NLDF_FIELDS[ver]["dots"]
+        n = len(kw[NLDF_FIELDS[ver]["l1"]]) if nfield is None else int(kw[nfield])
+        lo = -1
+        other = int(rng.integers(lo, n)) if n > 0 else -1
+        bad = {"index-too-large": (n, other), "index-below-minus-one": (other, -2), "triple": (other, other, other),
+               "single": (other,), "not-a-sequence": other}[op]
+        if op in ("index-too-large", "index-below-minus-one") and rng.random() < 0.5:
+            bad = bad[::-1]
+        dots = list(kw[fld])
+        pos = int(rng.integers(len(dots) + 1))
+        dots.insert(pos, bad)
+        kw[fld] = dots
+        return kw
+    return f
+
+
+UNKNOWN_SPECS = ["se_foo", "SE", "gauss", "", "se_r", "erf", "se-ar2"]
+PARAM_OPS = ["too-few", "too-many", "a0-zero", "a0-negative", "grad_mul-negative", "tau_mul-negative"]
+
+
+def _nldf_catalogue():
+    out = []
+    for ver in ("i", "j", "ij", "k"):
+        ents = [("unknown-sl_level", _c_field("sl_level", ["LDA", "mgga", "gga", "", "HYB", "MGGA "])),
+                ("unknown-rho_mult", _c_field("rho_mult", ["two", "One", "rho", "", "exp", "EXPNT"])),
+                ("theta_params:empty", _c_theta("empty"))]
+        ents += [("theta_params:" + op, _c_theta(op)) for op in PARAM_OPS]
+        if ver in ("j", "ij", "k"):
+            ents += [("feat_params:" + op, _c_fparams(op)) for op in PARAM_OPS]
+        if ver in ("j", "ij"):
+            ents += [("feat_params:erf_rinv-without-erf_mul", _c_erf_without_mul),
+                     ("feat_params:more-sets-than-specs", _c_nsets(+1)), ("feat_params:fewer-sets-than-specs", _c_nsets(-1)),
+                     ("unknown-spec[feat_specs]", _c_spec("specs", UNKNOWN_SPECS)),
+                     ("spec-of-other-family[feat_specs]", _c_spec("specs", ["se_r2", "se_grad", "se_lapl", "se_rvec", "se_ap"]))]
+        if ver in ("i", "ij"):
+            ents += [("unknown-spec[l0_feat_specs]", _c_spec("l0", UNKNOWN_SPECS)), ("unknown-spec[l1_feat_specs]", _c_spec("l1", UNKNOWN_SPECS)),
+                     ("spec-of-other-family[l0_feat_specs]", _c_spec("l0", ["se_ar2", "se_grad", "se_erf_rinv", "se_rvec", "se_a2r4"])),
+                     ("spec-of-other-family[l1_feat_specs]", _c_spec("l1", ["se", "se_r2", "se_erf_rinv", "se_lapl"]))]
+            ents += [("l1_dots:" + op, _c_dots(op)) for op in ("index-too-large", "index-below-minus-one", "triple", "single", "not-a-sequence")]
+        if ver == "k":
+            ents += [("unknown-rho_damp", _c_field("rho_damp", ["gaussian", "Exponential", "", "exp", "linear"]))]
+        for kind, cor in ents:
+            out.append({"cls": NLDF_CLS[ver], "kind": kind, "make": _nldf_make(ver, cor)})
+    return out
+
+
+def _nldf_make(ver, cor):
+    def make(rng):
+        kw = _kw_nldf(ver, rng, safe=True)
+        r = cor(copy.deepcopy(kw), rng, ver)
+        if r is None:
+            return None
+        good, bad = r if isinstance(r, tuple) else (kw, r)
+        uses = _settings_uses()
+        return (lambda: _mk_nldf(ver, good), uses), (lambda: _mk_nldf(ver, bad), uses), {"valid": good, "corrupted": bad}
+    return make
+
+
+def _fl_plan_use(rng):
+    def use(s):
+        from ciderpress.dft import plans
+        rho = np.abs(rng.normal(size=(1, 5 + s.nrho, 6))) + 0.1
+        f = plans.FracLaplPlan(s, 1).get_feat(rho)
+        assert f.shape[1] == s.nfeat
+    return ("FracLaplPlan.get_feat", use)
+
+
+def _other_settings_catalogue():
+    st = _st
+    out = []
+
+    def ent(cls, kind, make, assert_=True):
+        out.append({"cls": cls, "kind": kind, "make": make, "assert": assert_})
+
+    def sl_make(rng):
+        mode = _pick(rng, ["nst", "npa", "ns", "np"])
+        bad = _pick(rng, ["abc", "NPA", "mgga", "", "n", "npat", None])
+        return (lambda: st().SemilocalSettings(mode), _settings_uses()), (lambda: st().SemilocalSettings(bad), _settings_uses()), {"mode": bad}
+    ent("SemilocalSettings", "unknown-mode", sl_make)
+
+    def sadm_make(rng):
+        bad = _pick(rng, ["abc", "Smooth", "", "gauss", None])
+        return (lambda: st().SADMSettings("smooth"), _settings_uses()), (lambda: st().SADMSettings(bad), _settings_uses()), {"mode": bad}
+    ent("SADMSettings", "unknown-mode", sadm_make)
+
+    def fl_make(cor, eq_nd1=False):
+        def make(rng):
+            kw = _kw_fl(rng, safe=True)
+            if eq_nd1:
+                kw["nd1"] = kw["nk1"]  # FracLaplPlan caches nk1 F^d vectors: keep the valid base inside what the plan supports
+            bad = cor(copy.deepcopy(kw), rng)
+            if bad is None:
+                return None
+            uses = _settings_uses([_fl_plan_use(rng)])
+            return (lambda: st().FracLaplSettings(**kw), uses), (lambda: st().FracLaplSettings(**bad), uses), {"valid": kw, "corrupted": bad}
+        return make
+
+    def fl_count(field):
+        def cor(kw, rng):
+            kw[field] = (len(kw["slist"]) if field != "ndd" else kw["nd1"]) + int(rng.integers(1, 3))
+            return kw
+        return cor
+    for f, name in (("nk0", "nk0>len(slist)"), ("nk1", "nk1>len(slist)"), ("nd1", "nd1>len(slist)"), ("ndd", "ndd>nd1")):
+        ent("FracLaplSettings", name, fl_make(fl_count(f)))
+    for op in ("index-too-large", "index-below-minus-one", "triple", "single", "not-a-sequence"):
+        ent("FracLaplSettings", "l1_dots:" + op, fl_make(lambda kw, rng, op=op: _c_dots(op, field="l1_dots", nfield="nk1")(kw, rng, None)))
+    for op in ("index-too-large", "index-below-minus-one", "triple", "single"):
+        ent("FracLaplSettings", "ld_dots:" + op, fl_make(lambda kw, rng, op=op: _c_dots(op, field="ld_dots", nfield="nd1")(kw, rng, None), eq_nd1=True))
+
+    def sdmx_make(kind, field):
+        def make(rng):
+            kw = _kw_sdmx(kind, rng)
+            bad = dict(kw)
+            bad[field] = len(kw["pows"]) + int(rng.integers(1, 3))
+            return (lambda: _mk_sdmx(kind, kw), _settings_uses()), (lambda: _mk_sdmx(kind, bad), _settings_uses()), {"valid": kw, "corrupted": bad}
+        return make
+    ent("SDMXGSettings", "ndt>len(pows)", sdmx_make("sdmxg", "ndt"))
+    ent("SDMX1Settings", "n1>len(pows)", sdmx_make("sdmx1", "n1"))
+    ent("SDMXG1Settings", "nd>len(pows)", sdmx_make("sdmxg1", "nd"))
+    ent("SDMXG1Settings", "n1>len(pows)", sdmx_make("sdmxg1", "n1"))
+
+    def full_make(op):
+        def make(rng):
+            kw = _kw_sdmx("sdmxfull", rng)
+            d = {k: (list(v[0]), list(v[1])) for k, v in kw["settings_dict"].items()}
+            k = _pick(rng, sorted(d))
+            if op == "ratio<1":
+                d[float(rng.uniform(0.1, 0.95))] = d.pop(k)
+            elif op == "count>len(pows)":
+                d[k][1][int(rng.integers(4))] = len(d[k][0]) + 1
+            elif op == "counts-not-length-4":
+                d[k] = (d[k][0], d[k][1][:3] if rng.random() < 0.5 else d[k][1] + [0])
+            elif op == "value-not-a-pair":
+                d[k] = (d[k][0], d[k][1], 0) if rng.random() < 0.5 else (d[k][0],)
+            bad = {"settings_dict": d}
+            return (lambda: _mk_sdmx("sdmxfull", kw), _settings_uses()), (lambda: _mk_sdmx("sdmxfull", bad), _settings_uses()), {"corrupted": str(d)}
+        return make
+    for op in ("ratio<1", "count>len(pows)", "counts-not-length-4", "value-not-a-pair"):
+        ent("SDMXFullSettings", op, full_make(op))
+
+    # observations only (validity not documented): sign of erf_mul, negative counts
+    def erf_make(rng):
+        kw = _kw_nldf("j", rng, safe=True)
+        good, bad = _c_erf_without_mul(copy.deepcopy(kw), rng, "j")
+        bad = copy.deepcopy(good)
+        k = bad["feat_specs"].index("se_erf_rinv")
+        bad["feat_params"][k][-1] = -float(rng.uniform(0.2, 0.9)) if rng.random() < 0.5 else 0.0
+        return (lambda: _mk_nldf("j", good), _settings_uses()), (lambda: _mk_nldf("j", bad), _settings_uses()), {}
+    ent("NLDFSettingsVJ", "erf_mul<=0", erf_make, assert_=False)
+
+    def neg_make(rng):
+        kw = _kw_fl(rng, safe=True)
+        bad = dict(kw, nk0=-1)
+        return (lambda: st().FracLaplSettings(**kw), _settings_uses()), (lambda: st().FracLaplSettings(**bad), _settings_uses()), {}
+    ent("FracLaplSettings", "nk0<0", neg_make, assert_=False)
+    return out
+
+
+def _run_catalogue(case, rec, rng, cat):
+    sel = [e for i, e in enumerate(cat) if i % case["nparts"] == case["part"]]
+    sample = None
+    for e in sel:
+        for rep in range(case["reps"]):
+            made = e["make"](rng)
+            if made is None:
+                continue
+            valid, invalid, detail = made
+            r = _judge(rec, e["cls"], e["kind"], valid, invalid, "rej|%s|%s|%d" % (e["cls"], e["kind"], rep),
+                       before_c=e.get("before_c", True), assert_=e.get("assert", True), detail=_short(detail))
+            if sample is None and r is not None and e.get("assert", True):
+                sample = {"oracle": "rejection", "class": e["cls"], "kind": e["kind"], "arguments": _short(detail),
+                          "answer": "ACCEPTED" if r["outcome"] == "accepted" else "%s@%s: %s" % (r["exc"], r["stage"], r["msg"])}
+    rec.set_sample(sample)
+
+
+def _short(d):
+    try:
+        s = repr(d)
+    except Exception:  # noqa: BLE001
+        s = "<unprintable>"
+    return s[:700]
+
+
+def _run_rej_settings(case, rec, rng):
+    _run_catalogue(case, rec, rng, _nldf_catalogue() + _other_settings_catalogue())
+
+
+# ---- plans, normalisers, models (plain variant: every probe here is validated in Python before any C work) -------------
+def _plan_uses(rng, level, feature=None):
+    """Standard uses of an NLDF plan on admissible pointwise data: exponents and arguments -> coefficients."""
+    rd = _pointwise(rng, 24, 1, level)[0]
+
+    def exps(p):
+        for i in ([feature] if feature is not None else range(-1, p.nldf_settings.num_feat_param_sets)):
+            p.eval_feat_exp(p.get_rho_tuple(rd), i=i)
+
+    def coefs(p):
+        for i in ([feature] if feature is not None else range(-1, p.nldf_settings.num_feat_param_sets)):
+            a = p.get_interpolation_arguments(p.get_rho_tuple(rd), i=i)[0]
+            c, dc = p.get_interpolation_coefficients(a, i=i)
+            assert np.all(np.isfinite(c))
+    return [("eval_feat_exp", exps), ("get_interpolation_coefficients", coefs)]
+
+
+def _sdmx_plan_use(rng):
+    def use(p):
+        from ciderpress.dft.plans import SDMXIntPlan
+        na, ng = p.nalpha, 5
+        nf, n0 = p.settings.nfeat, p.num_l0_feat
+        pv = rng.normal(size=(4, na, ng))
+        if isinstance(p, SDMXIntPlan):
+            f = p.get_features(pv, out=np.empty((nf, ng)), l0tmp=np.empty((na, ng)), l1tmp=np.empty((3, na, ng)))
+        else:
+            f = p.get_features(pv, out=np.empty((nf, ng)), l0tmp=np.empty((n0, na, ng)), l1tmp=np.empty((nf - n0, 3, na, ng)))
+        assert f.shape == (nf, ng)
+    return [("get_features", use)]
+
+
+def _plans_catalogue():
+    from ciderpress.dft import plans
+    st = _st()
+    out = []
+
+    def ent(cls, kind, make, **kw):
+        out.append(dict({"cls": cls, "kind": kind, "make": make}, **kw))
+
+    # NLDF auxiliary plans
+    def nldf_make(pname, cor, feature_oob=False):
+        def make(rng):
+            ver = _pick(rng, ["j", "i", "ij", "k"])
+            kws = _kw_nldf(ver, rng, safe=True)
+            s = _mk_nldf(ver, kws)
+            lambd = float(rng.choice([1.5, 1.7, 2.0]))
+            kw = {"nldf_settings": s, "nspin": int(rng.integers(1, 3)), "alpha0": 0.004, "lambd": lambd,
+                  "nalpha": int(np.ceil(np.log(2e5 / 0.004) / np.log(lambd))) + 1, "coef_order": _pick(rng, ["gq", "qg"]),
+                  "alpha_formula": _pick(rng, ["etb", "zexp"]), "rhocut": 1e-10}
+            pc = getattr(plans, pname)
+            uses = _plan_uses(rng, kws["sl_level"])
+            if feature_oob:
+                bad_i = s.num_feat_param_sets if rng.random() < 0.7 else -2
+                return (lambda: pc(**kw), uses), (lambda: pc(**kw), _plan_uses(rng, kws["sl_level"], feature=bad_i)), {"settings": NLDF_CLS[ver], "i": bad_i, "num_feat_param_sets": s.num_feat_param_sets}
+            bad = cor(dict(kw), rng)
+            return (lambda: pc(**kw), uses), (lambda: pc(**bad), uses), {k: v for k, v in bad.items() if k != "nldf_settings" or not isinstance(v, st.NLDFSettings)}
+        return make
+    plan_cors = [("lambd=1", lambda kw, rng: dict(kw, lambd=1.0)), ("lambd<1", lambda kw, rng: dict(kw, lambd=float(rng.uniform(0.1, 0.99)))),
+                 ("lambd<=0", lambda kw, rng: dict(kw, lambd=-1.6 if rng.random() < 0.5 else 0.0)),
+                 ("alpha0=0", lambda kw, rng: dict(kw, alpha0=0.0)), ("alpha0<0", lambda kw, rng: dict(kw, alpha0=-0.004)),
+                 ("nalpha=0", lambda kw, rng: dict(kw, nalpha=0)), ("nalpha<0", lambda kw, rng: dict(kw, nalpha=-kw["nalpha"])),
+                 ("nalpha-not-int", lambda kw, rng: dict(kw, nalpha=kw["nalpha"] + 0.5)),
+                 ("nspin-not-1-or-2", lambda kw, rng: dict(kw, nspin=_pick(rng, [0, 3, -1, 4]))),
+                 ("unknown-coef_order", lambda kw, rng: dict(kw, coef_order=_pick(rng, ["GQ", "xx", "", "qq"]))),
+                 ("unknown-alpha_formula", lambda kw, rng: dict(kw, alpha_formula=_pick(rng, ["ETB", "exp", "", "linear"]))),
+                 ("settings-not-NLDFSettings", lambda kw, rng: dict(kw, nldf_settings=_pick(rng, ["vj", None, st.SemilocalSettings("npa"), st.SDMXSettings([0, 1])]))),
+                 ("negative-rhocut", lambda kw, rng: dict(kw, rhocut=-1e-10))]
+    for pname in ("NLDFGaussianPlan", "NLDFSplinePlan"):
+        for kind, cor in plan_cors:
+            ent(pname, kind, nldf_make(pname, cor))
+        ent(pname, "feature-index-out-of-range", nldf_make(pname, None, feature_oob=True))
+
+    # SDMX-type plans
+    def sdmx_plan_make(pname, cor):
+        def make(rng):
+            kind = {"SADMPlan": "sadm", "SDMXPlan": _pick(rng, ["sdmx", "sdmxg", "sdmx1", "sdmxg1"]), "SDMXFullPlan": "sdmxfull", "SDMXIntPlan": "sdmxfull"}[pname]
+            kws = _kw_sdmx(kind, rng)
+            if kind == "sadm":
+                kws = {"mode": "smooth"}
+            s = _mk_sdmx(kind, kws)
+            kw = {"settings": s, "nspin": int(rng.integers(1, 3)), "alpha0": float(rng.uniform(0.005, 0.02)), "lambd": float(rng.choice([1.6, 1.8, 2.0])),
+                  "nalpha": int(rng.integers(8, 14))}
+            pc = getattr(plans, pname)
+            bad = cor(dict(kw), rng)
+            uses = _sdmx_plan_use(rng)
+            return (lambda: pc(**kw), uses), (lambda: pc(**bad), uses), {k: v for k, v in bad.items() if k != "settings"}
+        return make
+    for pname in ("SADMPlan", "SDMXPlan", "SDMXFullPlan", "SDMXIntPlan"):
+        for kind, cor in plan_cors[:8]:
+            ent(pname, kind, sdmx_plan_make(pname, cor))
+
+    def sadm_metric(rng):
+        kw = {"settings": st.SADMSettings("exact"), "nspin": 1, "alpha0": 0.01, "lambd": 1.8, "nalpha": 10}
+        bad = dict(kw, fit_metric=_pick(rng, ["xx", "OVLP", "", "coulomb"]))
+        return (lambda: plans.SADMPlan(fit_metric=_pick(rng, ["ovlp", "coul"]), **kw), _sdmx_plan_use(rng)), (lambda: plans.SADMPlan(**bad), _sdmx_plan_use(rng)), {"fit_metric": bad["fit_metric"]}
+    ent("SADMPlan", "unknown-fit_metric", sadm_metric)
+
+    # semilocal plan
+    def sl_mode(rng):
+        mode = _pick(rng, ["nst", "npa", "ns", "np"])
+        nspin = int(rng.integers(1, 3))
+        rd = _pointwise(rng, 9, nspin, "MGGA")
+        uses = [("get_feat", lambda p: p.get_feat(rd))]
+
+        def bad():
+            s = st.SemilocalSettings(mode)
+            s.mode = _pick(rng, ["abc", "NPA", "", "nsta"])
+            return plans.SemilocalPlan(s, nspin)
+        return (lambda: plans.SemilocalPlan(st.SemilocalSettings(mode), nspin), uses), (bad, uses), {"mode": mode}
+    ent("SemilocalPlan", "unknown-mode", sl_mode)
+
+    def sl_rows(op):
+        def make(rng):
+            mode = _pick(rng, {"mgga": ["nst", "npa"], "gga": ["ns", "np"], "2d": ["nst", "npa", "ns", "np"]}[op])
+            nspin = int(rng.integers(1, 3))
+            rd = _pointwise(rng, 9, nspin, "MGGA")
+            bad = rd[0] if op == "2d" else rd[:, : int(rng.integers(1, 5 if op == "mgga" else 4))]
+            bad = np.ascontiguousarray(bad)
+            return ((lambda: plans.SemilocalPlan(st.SemilocalSettings(mode), nspin), [("get_feat", lambda p: p.get_feat(rd))]),
+                    (lambda: plans.SemilocalPlan(st.SemilocalSettings(mode), nspin), [("get_feat", lambda p: p.get_feat(bad))]),
+                    {"mode": mode, "rho_shape": list(bad.shape)})
+        return make
+    ent("SemilocalPlan.get_feat", "rho-with-too-few-rows[MGGA]", sl_rows("mgga"))
+    ent("SemilocalPlan.get_feat", "rho-with-too-few-rows[GGA]", sl_rows("gga"))
+    ent("SemilocalPlan.get_feat", "rho-without-spin-axis", sl_rows("2d"))
+
+    # fractional-Laplacian plan
+    def fl_rows(op):
+        def make(rng):
+            kw = _kw_fl(rng, safe=True)
+            s = st.FracLaplSettings(**kw)
+            nspin = int(rng.integers(1, 3))
+            n = 5 + s.nrho
+            good = rng.normal(size=(nspin, n, 6))
+            vgood = rng.normal(size=(nspin, s.nfeat, 6))
+            mk = lambda: plans.FracLaplPlan(s, nspin)  # noqa: E731
+            ok = [("get_feat", lambda p: p.get_feat(good)), ("get_vxc", lambda p: p.get_vxc(vgood))]
+            if op == "rows-1":
+                badu = [("get_feat", lambda p: p.get_feat(np.ascontiguousarray(good[:, :-1])))]
+            elif op == "rows+1":
+                badu = [("get_feat", lambda p: p.get_feat(rng.normal(size=(nspin, n + 1, 6))))]
+            elif op == "nspin":
+                badu = [("get_feat", lambda p: p.get_feat(rng.normal(size=(3 - nspin, n, 6)) if nspin == 1 else good[:1]))]
+            elif op == "feat-buffer":
+                badu = [("get_feat", lambda p: p.get_feat(good, feat=np.empty((nspin, s.nfeat + int(rng.choice([-1, 1])), 6))))]
+            else:
+                badu = [("get_feat", lambda p: p.get_feat(good)), ("get_vxc", lambda p: p.get_vxc(rng.normal(size=(nspin, s.nfeat + int(rng.choice([-1, 1])), 6))))]
+            return (mk, ok), (mk, badu), {"settings": kw, "nspin": nspin}
+        return make
+    for op, kind in (("rows-1", "rho-with-too-few-rows"), ("rows+1", "rho-with-too-many-rows"), ("nspin", "rho-with-wrong-spin-count"),
+                     ("feat-buffer", "feature-buffer-with-wrong-nfeat"), ("vfeat", "vfeat-with-wrong-nfeat")):
+        ent("FracLaplPlan", kind, fl_rows(op))
+
+    # normaliser lists, FeatureSettings, ModelWithNormalizer, feature maps
+    def fs_base(rng):
+        from vlib import gen
+        fam = _pick(rng, ["vj-mgga", "vi-gga", "sdmxg", "vk-mgga", "sl-nst", "vij-mgga", "vj+sdmx"])
+        fs = gen.family_settings(fam, rng)
+        x = np.abs(rng.normal(size=(int(rng.integers(1, 3)), fs.nfeat, 7))) + 0.05
+        return fam, fs, x
+
+    def fnl_make(op):
+        def make(rng):
+            from ciderpress.dft.feat_normalizer import FeatNormalizerList
+            fam, fs, x = fs_base(rng)
+            norms = fs.get_reasonable_normalizer()
+            mode = fs.sl_settings.mode
+            good = lambda: FeatNormalizerList(norms, mode)  # noqa: E731
+            ok = [("get_normalized_feature_vector", lambda l: l.get_normalized_feature_vector(x)),
+                  ("get_derivative_wrt_unnormed_features", lambda l: l.get_derivative_wrt_unnormed_features(x, np.ones_like(x)))]
+            if op == "slmode":
+                bad_mode = _pick(rng, ["abc", "NPA", "mgga", "", "n", None])
+                return (good, ok), (lambda: FeatNormalizerList(norms, bad_mode), ok), {"family": fam, "slmode": bad_mode}
+            d = int(rng.choice([-1, 1]))
+            xb = np.ascontiguousarray(x[:, :-1]) if d < 0 else np.concatenate([x, x[:, :1]], axis=1)
+            if op == "x-nfeat":
+                return (good, ok), (good, [("get_normalized_feature_vector", lambda l: l.get_normalized_feature_vector(xb))]), {"family": fam, "x": list(xb.shape), "nfeat": fs.nfeat}
+            if op == "x-2d":
+                return (good, ok), (good, [("get_normalized_feature_vector", lambda l: l.get_normalized_feature_vector(x[0]))]), {"family": fam}
+            if op == "dx-nfeat":
+                return (good, ok), (good, [("get_derivative_wrt_unnormed_features", lambda l: l.get_derivative_wrt_unnormed_features(x, np.ones_like(xb)))]), {"family": fam}
+            if op == "dx-nsamp":
+                return (good, ok), (good, [("get_derivative_wrt_unnormed_features", lambda l: l.get_derivative_wrt_unnormed_features(x, np.ones_like(x[:, :, :-2])))]), {"family": fam}
+            raise ValueError(op)
+        return make
+    ent("FeatNormalizerList", "unknown-slmode", fnl_make("slmode"))
+    ent("FeatNormalizerList", "feature-array-with-wrong-nfeat", fnl_make("x-nfeat"))
+    ent("FeatNormalizerList", "feature-array-without-spin-axis", fnl_make("x-2d"))
+    ent("FeatNormalizerList", "derivative-array-with-wrong-nfeat", fnl_make("dx-nfeat"))
+    ent("FeatNormalizerList", "derivative-array-with-wrong-sample-count", fnl_make("dx-nsamp"))
+
+    def fs_norm(delta):
+        def make(rng):
+            from ciderpress.dft.feat_normalizer import FeatNormalizerList
+            fam, fs, x = fs_base(rng)
+            norms = fs.get_reasonable_normalizer()
+            mode = fs.sl_settings.mode
+            bad_list = norms[:-1] if delta < 0 else norms + [None]
+            mk = lambda nl: st.FeatureSettings(sl_settings=fs.sl_settings, nldf_settings=fs.nldf_settings, sdmx_settings=fs.sdmx_settings,  # noqa: E731
+                                               normalizers=FeatNormalizerList(nl, mode))
+            uses = [("get_feat_usps(with_normalizers)", lambda f: f.get_feat_usps(with_normalizers=True)),
+                    ("ueg_vector(with_normalizers)", lambda f: f.ueg_vector(0.4, with_normalizers=True)),
+                    ("normalizers.get_normalized_feature_vector", lambda f: f.normalizers.get_normalized_feature_vector(x))]
+            return (lambda: mk(norms), uses), (lambda: mk(bad_list), uses), {"family": fam, "nfeat": fs.nfeat, "list_length": len(bad_list)}
+        return make
+    ent("FeatureSettings", "normalizer-list-shorter-than-nfeat", fs_norm(-1))
+    ent("FeatureSettings", "normalizer-list-longer-than-nfeat", fs_norm(+1))
+
+    def mwn(delta):
+        def make(rng):
+            from ciderpress.dft.feat_normalizer import FeatNormalizerList
+            from ciderpress.dft.xc_evaluator import ModelWithNormalizer
+            from vlib import gen
+            fam, fs, x = fs_base(rng)
+            model = gen.synth_model(fs, rng, evaluator="kernel", nctrl=4)
+            norms = fs.get_reasonable_normalizer()
+            bad_list = norms[:-1] if delta < 0 else norms + [None]
+            return ((lambda: ModelWithNormalizer(model, FeatNormalizerList(norms, fs.sl_settings.mode)), []),
+                    (lambda: ModelWithNormalizer(model, FeatNormalizerList(bad_list, fs.sl_settings.mode)), [("nfeat", lambda m: m.nfeat)]),
+                    {"family": fam, "model_nfeat": fs.nfeat, "list_length": len(bad_list)})
+        return make
+    ent("ModelWithNormalizer", "normalizer-list-shorter-than-model", mwn(-1))
+    ent("ModelWithNormalizer", "normalizer-list-longer-than-model", mwn(+1))
+
+    def fmap(rng):
+        from ciderpress.dft import baselines as bl
+        from ciderpress.dft import transform_data as td
+        from ciderpress.dft import xc_evaluator as xe
+        from vlib import gen
+        fam, fs, x = fs_base(rng)
+        nf = fs.nfeat
+        good_idx = list(range(1, nf))
+        bad_idx = list(good_idx)
+        bad_idx[int(rng.integers(len(bad_idx)))] = nf + int(rng.integers(0, 3))
+
+        def mk(idx):
+            fl = td.FeatureList([td.UMap(i, 0.4) for i in idx])
+            ev = gen.rand_evaluator("kernel", fl.nfeat, rng, nctrl=5)
+            return xe.MappedXC([xe.MappedDFTKernel([ev], fl, "SEP", bl.lda_x, bl.zero_xc)], fs)
+        uses = [("__call__", lambda m: m(x))]
+        return (lambda: mk(good_idx), uses), (lambda: mk(bad_idx), uses), {"family": fam, "nfeat": nf, "map_indices": bad_idx}
+    ent("MappedXC", "feature-map-index-out-of-range", fmap)
+
+    def mdk(rng):
+        from ciderpress.dft import baselines as bl
+        from ciderpress.dft import xc_evaluator as xe
+        from vlib import gen
+        fam, fs, x = fs_base(rng)
+        fl = gen.rand_feature_list(fs, rng)
+        ev = gen.rand_evaluator("kernel", fl.nfeat, rng, nctrl=5)
+        bad_mode = _pick(rng, ["sep", "XYZ", "", "SPIN"])
+        uses = [("__call__", lambda k: k(x))]
+        return (lambda: xe.MappedDFTKernel([ev], fl, "SEP", bl.lda_x, bl.zero_xc), uses), (lambda: xe.MappedDFTKernel([ev], fl, bad_mode, bl.lda_x, bl.zero_xc), uses), {"mode": bad_mode}
+    ent("MappedDFTKernel", "unknown-mode", mdk)
+    return out
+
+
+def _run_rej_plans(case, rec, rng):
+    _run_catalogue(case, rec, rng, _plans_catalogue())
+
+
+# ---- PyscfNLDFGenerator.from_mol_and_settings / PySCFNLDFInitializer --------------------------------------------------
+def _grid_ctx(rng, mname, lmax, level=0, basis="sto-3g"):
+    import pyscf.dft.gen_grid as gg
+    from pyscf.dft import numint as pn
+
+    from ciderpress.pyscf.gen_cider_grid import CiderGrids
+    from vlib import gen
+    mol = gen.make_mol(mname, basis, rng, jitter=0.03)
+    g = CiderGrids(mol, lmax=lmax)
+    g.level = level
+    g.prune = gg.nwchem_prune
+    g.build(with_non0tab=False)
+    return mol, g, pn
+
+
+def _real_rho(mol, g, pn, rng, level, nspin=1):
+    from vlib import gen
+    dm = gen.psd_dm(mol, rng, 1)
+    ao = pn.eval_ao(mol, g.coords, deriv=1)
+    rho = pn.eval_rho(mol, ao, dm / nspin, xctype=level, with_lapl=False)
+    rho[:, g.weights == 0] = 0.0
+    return np.ascontiguousarray(rho)
+
+
+def _run_rej_mol(case, rec, rng):
+    from ciderpress.pyscf.nldf_convolutions import PyscfNLDFGenerator, PySCFNLDFInitializer
+    lmax = int(case["lmax"])
+    mol, g, pn = _grid_ctx(rng, case["mol"], lmax)
+    ind = g.grids_indexer
+    nspin = int(case["nspin"])
+    rec.tag("from_mol_route", case["route"])
+    rec.tag("grids_lmax", lmax)
+    sample = None
+    kinds = [("unknown-plan_type", lambda r: {"plan_type": _pick(r, ["Gaussian", "xx", "", "splines"])}),
+             ("unknown-interpolator_type", lambda r: {"interpolator_type": _pick(r, ["onsite", "xx", "", "direct"])}),
+             ("unknown-alpha_formula", lambda r: {"alpha_formula": _pick(r, ["ETB", "xx", "", "exp"])}),
+             ("lmax>grids_indexer.lmax", lambda r: {"lmax": lmax + int(r.integers(1, 4))}),
+             ("aux_lambd=1", lambda r: {"aux_lambd": 1.0}),
+             ("aux_lambd<1", lambda r: {"aux_lambd": float(r.uniform(0.2, 0.95))}),
+             ("nspin-not-1-or-2", None)]
+    for j, (kind, cor) in enumerate(kinds):
+        ver = ["j", "i", "k", "ij"][(j + case["idx"]) % 4]
+        kws = _kw_nldf(ver, rng, safe=True)
+        s = _mk_nldf(ver, kws)
+        good = {"plan_type": _pick(rng, ["gaussian", "spline"]), "interpolator_type": _pick(rng, ["onsite_direct", "onsite_spline"]),
+                "lmax": int(rng.integers(2, lmax + 1))}
+        bad = dict(good)
+        ns_bad = nspin
+        if cor is None:
+            ns_bad = int(_pick(rng, [0, 3, -1]))
+        else:
+            bad.update(cor(rng))
+        rho = _real_rho(mol, g, pn, rng, kws["sl_level"], nspin)
+
+        def use(gen_):
+            gen_.interpolator.set_coords(g.coords)
+            f = gen_.get_features(rho)
+            assert f.shape[0] == s.nfeat
+
+        def mk(kw, ns):
+            if case["route"] == "classmethod":
+                return lambda: PyscfNLDFGenerator.from_mol_and_settings(mol, ind, ns, s, **kw)
+            return lambda: PySCFNLDFInitializer(s, **kw).initialize_nldf_generator(mol, ind, ns)
+        r = _judge(rec, "PyscfNLDFGenerator.from_mol_and_settings", kind, (mk(good, nspin), [("get_features", use)]),
+                   (mk(bad, ns_bad), [("get_features", use)]), "rejmol|%s|%d" % (kind, j), detail={"settings": NLDF_CLS[ver], "kwargs": bad, "nspin": ns_bad})
+        if sample is None and r is not None:
+            sample = {"oracle": "rejection", "class": "PyscfNLDFGenerator.from_mol_and_settings", "kind": kind, "kwargs": bad, "mol": case["mol"],
+                      "answer": "ACCEPTED" if r["outcome"] == "accepted" else "%s@%s: %s" % (r["exc"], r["stage"], r["msg"])}
+    rec.set_sample(sample)
+
+
+# ----------------------------------------------------------------------------------------------------------------
+# (iii) exponent range
+# ----------------------------------------------------------------------------------------------------------------
+MSG = "NLDF exponent is too large"
+COEF_ENTRY = ("libmcider.cider_coefs_gto_gq", "libmcider.cider_coefs_gto_qg", "libmcider.cider_coefs_spline_gq", "libmcider.cider_coefs_spline_qg",
+              "libmcider.cider_coefs_vk1_gq", "libmcider.cider_coefs_vk1_qg")
+
+
+def _scale_rho(rd, lam, level):
+    r2 = rd.copy()
+    r2[0] *= lam ** 3
+    r2[1:4] *= lam ** 4
+    if level == "MGGA":
+        r2[4] *= lam ** 5
+    return r2
+
+
+def _coef_calls():
+    from vlib import boot
+    c = boot.counters()
+    return sum(c.get(k, 0) for k in COEF_ENTRY)
+
+
+def _run_expnt(case, rec, rng):
+    from ciderpress.dft import plans
+    sample = None
+    for jc, (ver, level, pcl, nspin, form) in enumerate(case["combos"]):
+        kws = _kw_nldf(ver, rng, level=level)
+        s = _mk_nldf(ver, kws)
+        pc = plans.NLDFGaussianPlan if pcl == "gaussian" else plans.NLDFSplinePlan
+        pname = pc.__name__
+        lambd = float(rng.choice([1.5, 1.7, 2.0]))
+        nalpha = int(rng.integers(14, 24))
+        a0 = float(rng.choice([0.005, 0.02]))
+        order = _pick(rng, ["gq", "qg"])
+        args = (s, nspin, a0, lambd, nalpha)
+        base = dict(coef_order=order, alpha_formula=form)
+        p = pc(*args, **base)
+        p_off = pc(*args, raise_large_expnt_error=False, **base)
+        p_smooth = pc(*args, use_smooth_expnt_cutoff=True, **base)
+        amax, amin = float(np.max(p.alphas)), float(np.min(p.alphas))
+        size = getattr(p, "_spline_size", nalpha)
+        for k in ("settings", "level", "plan", "nspin", "formula"):
+            rec.tag("expnt_" + k, {"settings": NLDF_CLS[ver], "level": level, "plan": pname, "nspin": nspin, "formula": form}[k])
+        rd0 = _pointwise(rng, 30, 1, level, lo=1e-3, hi=20.0)[0]
+        for i in range(-1, s.num_feat_param_sets):
+            a_ref = p_off.eval_feat_exp(p_off.get_rho_tuple(rd0), i=i)[0]
+            amx = float(np.max(a_ref))
+            det = {"settings": NLDF_CLS[ver], "kwargs": kws, "plan": pname, "nspin": nspin, "alpha_formula": form, "i": i, "alpha_max": amax}
+            mech_hi = "%s:extrapolates-above-alpha_max" % pname
+
+            def rt(target):
+                return p.get_rho_tuple(_scale_rho(rd0, np.sqrt(target / amx), level))
+            # (a) above the range: every public route raises, and no coefficient kernel is entered
+            for fac in (1.001, float(rng.uniform(1.5, 100.0))):
+                tup = rt(amax * fac)
+                top = float(np.max(p_off.eval_feat_exp(tup, i=i)[0])) / amax
+                if not top > 1.0:
+                    continue
+                for route in ("eval_feat_exp", "get_interpolation_arguments", "pipeline"):
+                    n0 = _coef_calls()
+                    try:
+                        if route == "eval_feat_exp":
+                            p.eval_feat_exp(tup, i=i)
+                        else:
+                            arg = p.get_interpolation_arguments(tup, i=i)[0]
+                            if route == "pipeline":
+                                p.get_interpolation_coefficients(arg, i=i)
+                        got = "returned"
+                    except RuntimeError as e:
+                        got = "RuntimeError" if MSG in str(e) else "RuntimeError(other): %s" % str(e)[:60]
+                    except Exception as e:  # noqa: BLE001
+                        got = "%s: %s" % (type(e).__name__, str(e)[:60])
+                    rec.require("above_range_raises[%s]" % route, got == "RuntimeError", mechanism=mech_hi, detail=dict(det, route=route, max_exponent_over_alpha_max=top, got=got))
+                    rec.require("rejected_before_C", _coef_calls() == n0, mechanism="%s:coefficient-kernel-entered-above-alpha_max" % pname, detail=dict(det, route=route))
+            # (b) just inside: works, stays inside
+            tup = rt(amax * 0.999)
+            try:
+                a_in, _ = p.eval_feat_exp(tup, i=i)
+                arg = p.get_interpolation_arguments(tup, i=i)[0]
+                c, dc = p.get_interpolation_coefficients(arg, i=i)
+                ok = bool(np.max(a_in) <= amax and np.all(np.isfinite(c)) and np.all(np.isfinite(dc)))
+                rec.require("inside_range_works", ok, mechanism="%s:non-finite-inside-range" % pname, detail=det)
+            except Exception as e:  # noqa: BLE001
+                rec.require("inside_range_works", False, mechanism="%s:raises-inside-range" % pname, detail=dict(det, exc="%s: %s" % (type(e).__name__, str(e)[:100])))
+            # (c) below the range: no error; the spline argument is clipped into the table
+            tup = rt(amin * float(rng.uniform(1e-4, 0.5)))
+            try:
+                arg, darg = p.get_interpolation_arguments(tup, i=i)
+                c, dc = p.get_interpolation_coefficients(arg, i=i)
+                ok = bool(np.all(np.isfinite(c)) and np.all(np.isfinite(dc)))
+                if pcl == "spline" and not (i == -1 and ver == "k"):
+                    ok = ok and bool(np.min(arg) >= 0.0 and np.max(arg) <= size - 1)
+                rec.require("below_range_behaviour", ok, mechanism="%s:below-range-behaviour" % pname, detail=dict(det, arg_min=float(np.min(arg)), arg_max=float(np.max(arg))))
+            except Exception as e:  # noqa: BLE001
+                rec.require("below_range_behaviour", False, mechanism="%s:raises-below-range" % pname, detail=dict(det, exc="%s: %s" % (type(e).__name__, str(e)[:100])))
+            # (d) raise_large_expnt_error=False: no error; spline argument clipped to the last interval
+            tup = rt(amax * float(rng.uniform(1.5, 50.0)))
+            try:
+                arg, darg = p_off.get_interpolation_arguments(tup, i=i)
+                c, dc = p_off.get_interpolation_coefficients(arg, i=i)
+                ok = bool(np.all(np.isfinite(c)) and np.all(np.isfinite(dc)))
+                if pcl == "spline" and not (i == -1 and ver == "k"):
+                    ok = ok and bool(np.min(arg) >= 0.0 and np.max(arg) < size - 1)
+                rec.require("no_raise_flag_behaviour", ok, mechanism="%s:raise_large_expnt_error=False:argument-outside-table" % pname,
+                            detail=dict(det, arg_max=float(np.max(arg)), table=size))
+            except Exception as e:  # noqa: BLE001
+                rec.require("no_raise_flag_behaviour", False, mechanism="%s:raise_large_expnt_error=False:raises" % pname, detail=dict(det, exc="%s: %s" % (type(e).__name__, str(e)[:100])))
+            # (e) smooth cut-off: exponent saturates at alpha_max, no error
+            try:
+                a_s, _ = p_smooth.eval_feat_exp(tup, i=i)
+                arg = p_smooth.get_interpolation_arguments(tup, i=i)[0]
+                c, dc = p_smooth.get_interpolation_coefficients(arg, i=i)
+                ok = bool(np.max(a_s) <= amax * (1 + 1e-12) and np.all(np.isfinite(c)))
+                rec.require("smooth_cutoff_behaviour", ok, mechanism="%s:use_smooth_expnt_cutoff:exceeds-alpha_max" % pname, detail=dict(det, max_over_alpha_max=float(np.max(a_s)) / amax))
+            except Exception as e:  # noqa: BLE001
+                rec.require("smooth_cutoff_behaviour", False, mechanism="%s:use_smooth_expnt_cutoff:raises" % pname, detail=dict(det, exc="%s: %s" % (type(e).__name__, str(e)[:100])))
+            rec.nontrivial("expnt|%d|%s|%s|%d|%s|%d" % (jc, ver, pcl, nspin, form, i))
+            if sample is None and i >= 0:
+                sample = {"oracle": "exponent range", "settings": NLDF_CLS[ver], "kwargs": kws, "plan": pname, "nspin": nspin, "alpha_formula": form,
+                          "alpha_max": amax, "feature_index": i, "largest_exponent_unscaled": amx}
+    rec.set_sample(sample)
+
+
+def _run_expnt_e2e(case, rec, rng):
+    """A real molecule with alpha_max far below the exponents: the calculation must raise instead of returning numbers.
+    (The theta convolution of an earlier spin channel / of version k may legitimately run before a later exponent trips the
+    guard, so no before-C oracle here; the plan-level cases carry it.)"""
+    sample = None
+    for j, c in enumerate(case["cfgs"]):
+        cfg = {"family": c["family"], "spin": c["spin"], "mol": c["mol"], "basis": "sto-3g", "level": 0, "plan_type": c["plan_type"]}
+        nspin = 1 if c["spin"] == "rks" else 2
+        for k in ("family", "spin", "mol", "plan_type"):
+            rec.tag("expnt_e2e_" + k, c[k])
+        try:
+            mol, model, ks = _build_e2e(cfg, rng, nldf_extra={"alpha_max": c["alpha_max"]})
+            dm = _dms(mol, rng, nspin, 1)
+        except Exception as ex:  # noqa: BLE001
+            rec.set_inconclusive("could not build the tiny-alpha_max calculator: %s: %s" % (type(ex).__name__, str(ex)[:200]))
+            continue
+        try:
+            n, e, v = _nr(ks, dm, nspin)
+            got = "returned excsum=%r" % np.asarray(e).tolist()
+        except RuntimeError as ex:
+            got = "RuntimeError" if MSG in str(ex) else "RuntimeError(other): %s" % str(ex)[:80]
+        except Exception as ex:  # noqa: BLE001
+            got = "%s: %s" % (type(ex).__name__, str(ex)[:80])
+        plan = ks._numint.nldfgen.plan if ks._numint.nldfgen is not None else None
+        amax = float(np.max(plan.alphas)) if plan is not None else None
+        pname = type(plan).__name__ if plan is not None else "NLDFAuxiliaryPlan"
+        rec.require("e2e_tiny_alpha_max_raises", got == "RuntimeError", mechanism="%s:extrapolates-above-alpha_max[end-to-end]" % pname,
+                    detail={"cfg": cfg, "alpha_max_requested": c["alpha_max"], "alpha_max_of_plan": amax, "got": got})
+        rec.nontrivial("expnt-e2e|%d|%s|%s" % (j, c["family"], c["plan_type"]))
+        sample = sample or {"oracle": "tiny alpha_max end to end", "cfg": cfg, "alpha_max_requested": c["alpha_max"], "alpha_max_of_plan": amax, "got": got}
+    rec.set_sample(sample)
+
+
+# ----------------------------------------------------------------------------------------------------------------
+# (iv) ASan + UBSan drivers (accepted calls over many shapes)
+# ----------------------------------------------------------------------------------------------------------------
+def _run_asan_e2e(case, rec, rng):
+    sample = None
+    for j, cfg in enumerate(case["cfgs"]):
+        s = _drive_e2e(rec, cfg, rng, "asan-e2e|%d|%s|%s|%s" % (j, cfg["family"], cfg["spin"], cfg["mol"]))
+        rec.require("driven_call_returned[e2e]", True)
+        sample = sample or s
+    rec.set_sample(sample)
+
+
+def _window_ops(rec, rng, ind, atco, nalpha, tag):
+    """reduce_angc_ylm_ / convert_rad2orb_ with every offset/stride variant the wrappers accept; besides ASan an explicit
+    oracle that nothing outside the [offset, offset+nalpha) window of the strided array was written (intra-array overrun)."""
+    ng = ind.all_weights.size
+    nao = atco.nao
+    qs = sorted(set([1, 3, int(nalpha)]))
+    for q in qs:
+        for extra in (0, 1, 4):
+            stride = q + extra
+            for off in sorted(set([0, extra, int(rng.integers(0, extra + 1))])):
+                mask = np.ones(stride, bool)
+                mask[off:off + q] = False
+                # spherical harmonics <-> angular grid
+                th = rng.normal(size=(ind.nrad, ind.nlm, q))
+                full = rng.normal(size=(ng, stride))
+                ref = full.copy()
+                ind.reduce_angc_ylm_(th, full, a2y=True, offset=off)
+                rec.require("window[reduce_angc_ylm_]", np.array_equal(full, ref) and bool(np.all(np.isfinite(th))),
+                            mechanism="reduce_angc_ylm_:modifies-input[a2y]", detail={"stride": stride, "offset": off, "nalpha": q})
+                th2 = th.copy()
+                ind.reduce_angc_ylm_(th2, full, a2y=False, offset=off)
+                rec.require("window[reduce_angc_ylm_]", np.array_equal(full[:, mask], ref[:, mask]) and np.array_equal(th2, th),
+                            mechanism="reduce_angc_ylm_:writes-outside-offset-window", detail={"stride": stride, "offset": off, "nalpha": q, "lmax": ind.lmax})
+                # radial functions <-> orbital basis
+                p = rng.normal(size=(nao, stride))
+                pref = p.copy()
+                th = rng.normal(size=(ind.nrad, ind.nlm, q))
+                thref = th.copy()
+                zero = bool(rng.integers(2))
+                atco.convert_rad2orb_(th, p, ind, ind.rad_arr, rad2orb=True, offset=off, zero_output=zero)
+                rec.require("window[convert_rad2orb_]", np.array_equal(p[:, mask], pref[:, mask]) and np.array_equal(th, thref),
+                            mechanism="convert_rad2orb_:writes-outside-offset-window[rad2orb]", detail={"stride": stride, "offset": off, "nalpha": q, "lmax": ind.lmax})
+                p2 = p.copy()
+                atco.convert_rad2orb_(th, p, ind.ar_loc, ind.rad_arr, rad2orb=False, offset=off, zero_output=zero)
+                rec.require("window[convert_rad2orb_]", np.array_equal(p, p2) and bool(np.all(np.isfinite(th))),
+                            mechanism="convert_rad2orb_:modifies-input[orb2rad]", detail={"stride": stride, "offset": off, "nalpha": q})
+                rec.tag("offset_stride_variant", "q=%s,stride=q+%d,offset=%s" % ("nalpha" if q == nalpha and q not in (1, 3) else q, extra, "0" if off == 0 else ("max" if off == extra else "mid")))
+    rec.nontrivial("window|%s" % tag)
+
+
+def _lowlevel_generator(rec, rng, cfg, mol, g, nspin, tag):
+    """Direct drive of one PyscfNLDFGenerator: convolution collection, interpolator, features and potential."""
+    from ciderpress.pyscf.nldf_convolutions import PyscfNLDFGenerator
+    ver = {"vj-mgga": "j", "vi-gga": "i", "vk-mgga": "k", "vij-mgga": "ij"}[cfg["family"]]
+    level = "GGA" if cfg["family"].endswith("-gga") else "MGGA"
+    kws = _kw_nldf(ver, rng, level=level)
+    s = _mk_nldf(ver, kws)
+    ind = g.grids_indexer
+    aux_lmax = int(rng.integers(1, ind.lmax + 1))
+    gen_ = PyscfNLDFGenerator.from_mol_and_settings(mol, ind, nspin, s, plan_type=cfg["plan_type"], interpolator_type=cfg["interp"], lmax=aux_lmax,
+                                                    aux_lambd=float(rng.choice([1.6, 1.8])))
+    gen_.interpolator.set_coords(g.coords)
+    rec.tag("aux_lmax", aux_lmax)
+    ccl = gen_.ccl
+    x = rng.normal(size=(ccl.atco_inp.nao, ccl.nalpha))
+    if ccl.is_vk:
+        # the version-k wrapper sizes its default output with the INPUT basis and then refuses it (AssertionError): a valid
+        # call that raises, outside C18; recorded and driven with explicit buffers
+        try:
+            ccl.multiply_atc_integrals(np.ascontiguousarray(x), fwd=True)
+        except AssertionError:
+            rec.tag("observation", "ConvolutionCollectionK.multiply_atc_integrals(output=None):AssertionError-on-valid-input")
+        y = ccl.multiply_atc_integrals(np.ascontiguousarray(x), output=np.zeros((ccl.atco_out.nao, ccl.nalpha)), fwd=True)
+    else:
+        y = ccl.multiply_atc_integrals(np.ascontiguousarray(x), fwd=True)
+    yb = rng.normal(size=y.shape)
+    xb = ccl.multiply_atc_integrals(np.ascontiguousarray(yb), output=np.zeros((ccl.atco_inp.nao, ccl.nalpha)), fwd=False)
+    rec.require("lowlevel_shapes", xb.shape == x.shape and y.shape[0] == ccl.atco_out.nao and bool(np.all(np.isfinite(y))), mechanism="multiply_atc_integrals:shape")
+    fg = gen_.interpolator.project_orb2grid(np.ascontiguousarray(rng.normal(size=(ccl.atco_out.nao, gen_.interpolator.num_in))))
+    fu = gen_.interpolator.project_grid2orb(np.ascontiguousarray(rng.normal(size=fg.shape)))
+    rec.require("lowlevel_shapes", fg.shape[0] == g.weights.size and fu.shape == (ccl.atco_out.nao, gen_.interpolator.num_in), mechanism="LCAOInterpolatorDirect:shape")
+    import pyscf.dft.numint as pn
+    for sp in range(nspin):
+        rho = _real_rho(mol, g, pn, rng, level, nspin)
+        f = gen_.get_features(rho, spin=sp)
+        rec.require("generator_rows[PyscfNLDFGenerator]", f.shape == (s.nfeat, g.weights.size), mechanism="PyscfNLDFGenerator.get_features:rows!=nfeat[%s]" % NLDF_CLS[ver],
+                    detail={"shape": list(f.shape), "nfeat": s.nfeat})
+        v = gen_.get_potential(rng.normal(size=f.shape) * g.weights, spin=sp)
+        rec.require("lowlevel_shapes", v.shape == rho.shape and bool(np.all(np.isfinite(v))), mechanism="PyscfNLDFGenerator.get_potential:shape")
+    _window_ops(rec, rng, ind, ccl.atco_inp, min(gen_.plan.nalpha, 7), tag + "|inp")
+    _window_ops(rec, rng, ind, ccl.atco_out, 2, tag + "|out")
+    return {"settings": NLDF_CLS[ver], "kwargs": kws, "nalpha": int(gen_.plan.nalpha), "aux_lmax": aux_lmax, "nao_inp": int(ccl.atco_inp.nao),
+            "nao_out": int(ccl.atco_out.nao), "nrad": int(ind.nrad), "nlm": int(ind.nlm)}
+
+
+def _run_asan_lmax(case, rec, rng):
+    sample = None
+    for j, cfg in enumerate(case["cfgs"]):
+        L = int(cfg["lmax"])
+        rec.tag("grids_lmax", L)
+        c = {"family": cfg["family"], "spin": cfg["spin"], "mol": cfg["mol"], "basis": "sto-3g", "level": 0, "plan_type": cfg["plan_type"], "interp": cfg["interp"],
+             "nset": 1, "max_memory": 2000}
+        s1 = _drive_e2e(rec, c, rng, "lmax-e2e|%d|L%d|%s" % (j, L, cfg["family"]), lmax=L)
+        try:
+            mol, g, pn = _grid_ctx(rng, cfg["mol"], L)
+            info = _lowlevel_generator(rec, rng, cfg, mol, g, 1 if cfg["spin"] == "rks" else 2, "L%d|%s|%d" % (L, cfg["family"], j))
+        except AssertionError as ex:
+            rec.set_inconclusive("admissible low-level call refused: %s" % str(ex)[:200])
+            info = None
+        rec.require("driven_call_returned[lmax]", True)
+        sample = sample or {"oracle": "lmax drivers", "lmax": L, "e2e": s1, "lowlevel": info}
+    rec.set_sample(sample)
+
+
+def _valid_evaluator(cls, rng, n, nctrl, amp=0.5):
+    """(evaluator, X1 factory) of the given class with n transformed features and nctrl control points."""
+    from ciderpress.dft import xc_evaluator as xe
+    from ciderpress.models.kernels import DiffConstantKernel, DiffRBF
+    ls = np.exp(rng.uniform(np.log(0.3), np.log(1.5), size=n - 1 if cls == "AntisymRBFEvaluator" else n))
+    kern = DiffConstantKernel(float(rng.uniform(0.5, 2.0))) * DiffRBF(ls)
+    alpha = rng.normal(size=nctrl) * amp
+    if cls == "SpinRBFEvaluator":
+        return xe.SpinRBFEvaluator(kern, rng.uniform(-0.5, 1.0, size=(2, nctrl, n)), alpha), (lambda N: rng.uniform(-0.5, 1.0, size=(2, N, n)))
+    ctrl = rng.uniform(-0.5, 1.0, size=(nctrl, n))
+    ev = {"RBFEvaluator": xe.RBFEvaluator, "AntisymRBFEvaluator": xe.AntisymRBFEvaluator, "KernelEvaluator": xe.KernelEvaluator}[cls](kern, ctrl, alpha)
+    return ev, (lambda N: rng.uniform(-0.5, 1.0, size=(N, n)))
+
+
+def _run_asan_eval(case, rec, rng):
+    from vlib import gen
+    counts = [1, 2, 3, 7, 2000, 2001]
+    nctrls = [1, 2, 150, 151]
+    sample = None
+    k = 0
+    for cls in EVAL_CLASSES + ["KernelEvaluator"]:
+        for N in counts:
+            for nc in nctrls:
+                k += 1
+                if cls == "KernelEvaluator" and (N > 7 and nc > 2) and (k + case["part"]) % 3:
+                    continue  # pure Python: a thinner sample is enough
+                n = int(rng.choice([2, 3, 6]))
+                ev, X = _valid_evaluator(cls, rng, n, nc)
+                x = X(N)
+                r0, d0 = ev(x)
+                res = np.zeros(x.shape[-2])
+                dres = np.zeros(x.shape)
+                r1, d1 = ev(x, res, dres)
+                ok = r0.shape == (N,) and d0.shape == x.shape and bool(np.all(np.isfinite(r0)) and np.all(np.isfinite(d0)))
+                err = float(np.max(np.abs(r0 - r1))) / max(1e-300, float(np.max(np.abs(r0)))) if N else 0.0
+                rec.require("evaluator_shapes", ok, mechanism="%s:output-shape" % cls, detail={"N": N, "nctrl": nc, "n1": n})
+                rec.check("evaluator_default_vs_given_buffers", err, 1e-10, mechanism="%s:default-buffers-differ-from-given" % cls, detail={"N": N, "nctrl": nc})
+                rec.tag("evaluator_class", cls)
+                rec.tag("sample_count", N)
+                rec.tag("control_count", nc)
+                rec.nontrivial("eval|%s|%d|%d" % (cls, N, nc))
+                if sample is None and N == 2001 and nc == 151:
+                    sample = {"oracle": "evaluator under ASan", "class": cls, "N": N, "nctrl": nc, "n1": n, "res0": float(r0[0])}
+    # whole models: SEP / NPOL / POL, nspin 1 / 2, chunk boundary sample counts
+    for fam, mode, evk in (("vj-mgga", "SEP", "rbf"), ("sl-npa", "NPOL", "rbf+linear"), ("sdmxg", "POL", "spinrbf"), ("vi-gga", "SEP", "kernel")):
+        fs = gen.family_settings(fam, rng)
+        model = gen.build_model({"family": fam, "mode": mode, "evaluator": evk}, rng)
+        for nspin in (1, 2):
+            for N in (1, 3, 2000, 2001):
+                nf = model.settings.nfeat
+                nsl = model.settings.sl_settings.nfeat
+                X0 = rng.normal(size=(nspin, nf, N))
+                X0[:, :nsl] = np.exp(rng.uniform(np.log(1e-2), np.log(5.0), size=(nspin, nsl, N)))
+                res, dres = model(X0, rhocut=1e-9)
+                rec.require("model_output_shapes", np.shape(res)[-1] == N and np.shape(dres) == X0.shape, mechanism="MappedXC[%s]:output-shape" % mode,
+                            detail={"family": fam, "nspin": nspin, "N": N, "res": list(np.shape(res)), "dres": list(np.shape(dres))})
+                rec.tag("model_mode", mode)
+        rec.nontrivial("model|%s|%s" % (fam, mode))
+        del fs
+    rec.set_sample(sample)
+
+
+def _run_asan_sdmx(case, rec, rng):
+    rec.set_sample(_sdmx_generators(rec, rng, case["n"], "asan-sdmx"))
+    rec.require("driven_call_returned[sdmx]", True)
+
+
+def _run_asan_fft(case, rec, rng):
+    from ciderpress.lib.fft_plan import FFTWrapper
+    sample = None
+    for j in range(case["n"]):
+        f = (j + case["idx"]) % 16
+        fwd, r2c, inplace, bf = bool(f & 1), bool(f & 2), bool(f & 4), bool(f & 8)
+        rank = int(rng.integers(1, 4))
+        dims = [int(v) for v in rng.choice([1, 2, 3, 4, 5, 7, 8, 9, 12], size=rank)]
+        nt = int(rng.choice([1, 2, 3, 7]))
+        w = FFTWrapper(dims, ntransform=nt, fwd=fwd, r2c=r2c, inplace=inplace, batch_first=bf)
+        axes = tuple(range(1, rank + 1)) if bf else tuple(range(rank))
+        rshape = ([nt] + dims) if bf else (dims + [nt])
+        xr = rng.normal(size=rshape)
+        if r2c:
+            x = xr if fwd else np.fft.rfftn(xr, axes=axes)
+            ref = np.fft.rfftn(xr, axes=axes) if fwd else xr * np.prod(dims)
+        else:
+            x = xr + 1j * rng.normal(size=rshape)
+            ref = np.fft.fftn(x, axes=axes) if fwd else np.fft.ifftn(x, axes=axes) * np.prod(dims)
+        x = np.ascontiguousarray(x.astype(np.float64 if (r2c and fwd) else np.complex128))
+        y = w.call(x)
+        err = float(np.max(np.abs(y - ref))) / max(1e-300, float(np.max(np.abs(ref))))
+        rec.check("fft_value", err, 1e-10, mechanism="FFTWrapper:value-under-asan", detail={"dims": dims, "ntransform": nt, "flags": [fwd, r2c, inplace, bf]})
+        y2 = w.call(x)
+        rec.require("fft_shapes", y.shape == tuple(w.output_shape) == y2.shape, mechanism="FFTWrapper:output-shape")
+        rec.tag("fft_plan_class", "%s-%s-%s-%s" % ("r2c" if r2c else "c2c", "fwd" if fwd else "bwd", "inplace" if inplace else "outofplace", "batchfirst" if bf else "batchlast"))
+        rec.nontrivial("fft|%d|%s|%d" % (f, dims, nt))
+        sample = sample or {"oracle": "FFT wrapper under ASan", "dims": dims, "ntransform": nt, "flags[fwd,r2c,inplace,batch_first]": [fwd, r2c, inplace, bf], "rel_err": err}
+        del w
+    rec.set_sample(sample)
+
+
+def _run_asan_misc(case, rec, rng):
+    """Training-data generators (LCAOInterpolator 'train_gen', fractional Laplacian, SDMX with orbital derivatives) and the
+    non-raising exponent paths of the plans (clipped spline index, smooth cut-off) under ASan."""
+    import contextlib
+    import io
+
+    from ciderpress.dft import plans
+    from ciderpress.pyscf.descriptors import get_descriptors
+    st = _st()
+    sample = _descriptors(rec, rng, case["spin"], 6, "asan-desc")
+    # orbital-occupation derivatives (get_feat_and_occd / eval_occd_full / FracLaplPlan.get_occd)
+    if case["spin"] == "rhf":
+        from pyscf import scf
+
+        from ciderpress.pyscf.analyzers import RHFAnalyzer
+        from vlib import gen
+        mol = gen.make_mol(_pick(rng, ["HF", "LiH"]), "sto-3g", rng, jitter=0.03)
+        mf = scf.RHF(mol)
+        mf.verbose = 0
+        mf.max_cycle = 8
+        with contextlib.redirect_stdout(io.StringIO()):
+            mf.kernel()
+            ana = RHFAnalyzer.from_calc(mf, grids_level=0) if hasattr(RHFAnalyzer, "from_calc") else None
+        if ana is not None and ana.mo_coeff is not None:
+            orbs = {"O": [0], "U": [0]}
+            for label, s, kw in (("SemilocalSettings", st.SemilocalSettings("npa"), {}), ("NLDFSettingsVJ", _mk_nldf("j", _kw_nldf("j", rng)), {"inner_grids_level": 0, "lmax": 6}),
+                                 ("FracLaplSettings", st.FracLaplSettings(**_kw_fl(rng)), {}), ("SDMXG1Settings", _mk_sdmx("sdmxg1", _kw_sdmx("sdmxg1", rng)), {})):
+                try:
+                    with contextlib.redirect_stdout(io.StringIO()):
+                        d, dd, ev = get_descriptors(ana, s, orbs=orbs, **kw)
+                except Exception as ex:  # noqa: BLE001
+                    rec.note("valid_call_raised[orbs|%s]" % label, "%s: %s" % (type(ex).__name__, str(ex)[:200]))
+                    rec.tag("observation", "get_descriptors(orbs=...)[%s]:raises-%s" % (label, type(ex).__name__))
+                    continue
+                ok = d.shape[:2] == (1, s.nfeat) and all(np.shape(dd[k][0]) == d.shape[1:] for k in orbs)
+                rec.require("generator_rows[get_descriptors,orbs]", ok, mechanism="get_descriptors:occupation-derivative-rows!=nfeat[%s]" % label,
+                            detail={"desc": list(d.shape), "deriv": [list(np.shape(dd[k][0])) for k in orbs]})
+                rec.tag("generator", "get_descriptors[%s,orbs]" % label)
+                rec.nontrivial("asan-desc-orbs|%s" % label)
+    # non-raising exponent paths
+    for j in range(8):
+        ver = ["j", "k", "ij", "i"][j % 4]
+        kws = _kw_nldf(ver, rng)
+        s = _mk_nldf(ver, kws)
+        pc = [plans.NLDFGaussianPlan, plans.NLDFSplinePlan][(j // 4) % 2]
+        flags = [{"raise_large_expnt_error": False}, {"use_smooth_expnt_cutoff": True}][j % 2]
+        nspin = 1 + (j // 2) % 2
+        p = pc(s, nspin, 0.01, float(rng.choice([1.6, 2.0])), int(rng.integers(10, 18)), coef_order=_pick(rng, ["gq", "qg"]), alpha_formula=_pick(rng, ["etb", "zexp"]), **flags)
+        for ng in (1, 2, 9, 1000):
+            rd = _pointwise(rng, ng, 1, kws["sl_level"], lo=1e-8, hi=1e3)[0]
+            for lam in (1e-3, 1.0, 30.0):
+                tup = p.get_rho_tuple(_scale_rho(rd, lam, kws["sl_level"]))
+                for i in range(-1, s.num_feat_param_sets):
+                    arg = p.get_interpolation_arguments(tup, i=i)[0]
+                    c, dc = p.get_interpolation_coefficients(arg, i=i)
+                    rec.require("coefficients_finite", bool(np.all(np.isfinite(c)) and np.all(np.isfinite(dc))), mechanism="%s:non-finite-coefficients[%s]" % (pc.__name__, list(flags)[0]))
+        rec.tag("non_raising_plan", "%s[%s]" % (pc.__name__, list(flags)[0]))
+        rec.nontrivial("asan-expnt|%d" % j)
+    rec.set_sample(sample)
+
+
+# ---- acceptance probes that could touch memory if they were accepted: ASan workers only ------------------------------
+def _eval_shape_entries(cls):
+    out = []
+
+    def ent(kind, badcall, assert_=True):
+        def make(rng):
+            n = int(rng.choice([3, 4, 6]))
+            nc = int(rng.choice([2, 9]))
+            N = int(rng.choice([1, 5, 40]))
+            ev, X = _valid_evaluator(cls, rng, n, nc)
+            x = X(N)
+            return (lambda: ev, [("__call__", lambda e: e(x))]), (lambda: ev, [("__call__", lambda e: badcall(e, x, rng))]), {"n1": n, "nctrl": nc, "N": N, "X1": list(x.shape)}
+        out.append({"cls": cls, "kind": kind, "make": make, "assert": assert_})
+    ent("X1-narrower-than-kernel", lambda e, x, r: e(np.ascontiguousarray(x[..., :-1])))
+    ent("X1-wider-than-kernel", lambda e, x, r: e(np.concatenate([x, x[..., :1]], axis=-1)), assert_=False)  # callee reads a column subset by design
+    ent("X1-without-sample-axis", lambda e, x, r: e(np.ascontiguousarray(x[..., 0, :])))
+    ent("res-too-short", lambda e, x, r: e(x, res=np.zeros(max(0, x.shape[-2] - 1))))
+    ent("res-too-long", lambda e, x, r: e(x, res=np.zeros(x.shape[-2] + int(r.integers(1, 4)))))
+    ent("res-with-extra-axis", lambda e, x, r: e(x, res=np.zeros((x.shape[-2], 1))))
+    ent("dres-narrower-than-X1", lambda e, x, r: e(x, dres=np.zeros(x.shape[:-1] + (x.shape[-1] - 1,))))
+    ent("dres-with-fewer-samples", lambda e, x, r: e(x, dres=np.zeros(x.shape[:-2] + (max(0, x.shape[-2] - 1), x.shape[-1]))))
+    ent("dres-with-more-samples", lambda e, x, r: e(x, dres=np.zeros(x.shape[:-2] + (x.shape[-2] + 2, x.shape[-1]))))
+    ent("dres-transposed", lambda e, x, r: e(x, dres=np.zeros(x.shape[:-2] + (x.shape[-1], x.shape[-2] + 1))))
+    return out
+
+
+def _run_asan_shape_eval(case, rec, rng):
+    cat = []
+    for cls in EVAL_CLASSES:
+        cat += _eval_shape_entries(cls)
+
+    # C-backed model given too few features / a feature map pointing past the feature vector
+    def model_make(op):
+        def make(rng):
+            from ciderpress.dft import baselines as bl
+            from ciderpress.dft import transform_data as td
+            from ciderpress.dft import xc_evaluator as xe
+            from vlib import gen
+            fs = gen.family_settings(_pick(rng, ["vj-mgga", "sdmxg", "vi-gga"]), rng)
+            nf = fs.nfeat
+            x = np.abs(rng.normal(size=(int(rng.integers(1, 3)), nf, 11))) + 0.05
+            idx = list(range(1, nf))
+
+            def mk(ix):
+                fl = td.FeatureList([td.UMap(i, 0.4) for i in ix])
+                ev = gen.rand_evaluator("rbf", fl.nfeat, rng, nctrl=6)
+                return xe.MappedXC([xe.MappedDFTKernel([ev], fl, "SEP", bl.lda_x, bl.zero_xc)], fs)
+            ok = [("__call__", lambda m: m(x))]
+            if op == "index":
+                bad = list(idx)
+                bad[int(rng.integers(len(bad)))] = nf + int(rng.integers(0, 3))
+                return (lambda: mk(idx), ok), (lambda: mk(bad), ok), {"nfeat": nf, "map_indices": bad}
+            return (lambda: mk(idx), ok), (lambda: mk(idx), [("__call__", lambda m: m(np.ascontiguousarray(x[:, :-1])))]), {"nfeat": nf, "X0T": [x.shape[0], nf - 1, 11]}
+        return make
+    cat.append({"cls": "MappedXC[RBFEvaluator]", "kind": "feature-map-index-out-of-range", "make": model_make("index")})
+    cat.append({"cls": "MappedXC[RBFEvaluator]", "kind": "feature-array-with-too-few-features", "make": model_make("x")})
+    c = dict(case, part=0, nparts=1, reps=2)
+    _run_catalogue(c, rec, rng, cat)
+
+
+def _run_asan_shape_nldf(case, rec, rng):
+    from ciderpress.pyscf.nldf_convolutions import PyscfNLDFGenerator
+    ver = case["version"]
+    level = _pick(rng, ["GGA", "MGGA"])
+    kws = _kw_nldf(ver, rng, level=level, safe=True)
+    s = _mk_nldf(ver, kws)
+    mol, g, pn = _grid_ctx(rng, case["mol"], 6)
+    ind = g.grids_indexer
+    gen_ = PyscfNLDFGenerator.from_mol_and_settings(mol, ind, 1, s, plan_type=case["plan_type"], interpolator_type=_pick(rng, ["onsite_direct", "onsite_spline"]), lmax=4)
+    gen_.interpolator.set_coords(g.coords)
+    rho = _real_rho(mol, g, pn, rng, level)
+    ng = rho.shape[1]
+    ccl, plan = gen_.ccl, gen_.plan
+    ai, ao = ccl.atco_inp, ccl.atco_out
+    nal = plan.nalpha
+    for k, v in (("settings", NLDF_CLS[ver]), ("level", level), ("plan", type(plan).__name__), ("mol", case["mol"])):
+        rec.tag("shape_probe_" + k, v)
+    G = "PyscfNLDFGenerator"
+    cat = []
+
+    def ent(cls, kind, ok_use, bad_use, before_c=True, assert_=True, obj=None):
+        target = gen_ if obj is None else obj
+        cat.append({"cls": cls, "kind": kind, "before_c": before_c, "assert": assert_,
+                    "make": lambda r: ((lambda: target, [ok_use]), (lambda: target, [bad_use]), {"settings": NLDF_CLS[ver], "level": level, "ngrids": ng})})
+    feat_ok = ("get_features", lambda o: o.get_features(rho))
+    nrow = rho.shape[0]
+    ent(G + ".get_features", "rho-with-too-few-rows[%s]" % level, feat_ok, ("get_features", lambda o: o.get_features(np.ascontiguousarray(rho[: nrow - 1]))), before_c=False)
+    ent(G + ".get_features", "rho-with-too-few-rows[%s]" % level, feat_ok, ("get_features", lambda o: o.get_features(np.ascontiguousarray(rho[:2]))), before_c=False)
+    # the exponent / spline-index kernels legitimately run on the given columns before the grid map is applied: no before-C oracle
+    ent(G + ".get_features", "rho-with-fewer-grid-points", feat_ok, ("get_features", lambda o: o.get_features(np.ascontiguousarray(rho[:, :-8]))), before_c=False)
+    # trailing columns are dropped on purpose (grid padding), so extra points are an observation only
+    ent(G + ".get_features", "rho-with-more-grid-points", feat_ok, ("get_features", lambda o: o.get_features(np.ascontiguousarray(np.concatenate([rho, rho[:, :8]], axis=1)))),
+        before_c=False, assert_=False)
+
+    def pot(o, shape):
+        f = o.get_features(rho)
+        v = np.ones(f.shape if shape is None else shape(f.shape))
+        return o.get_potential(v)
+    pot_ok = ("get_potential", lambda o: pot(o, None))
+    ent(G + ".get_potential", "vfeat-with-too-few-rows", pot_ok, ("get_potential", lambda o: pot(o, lambda sh: (sh[0] - 1, sh[1]))), before_c=False)
+    ent(G + ".get_potential", "vfeat-with-too-many-rows", pot_ok, ("get_potential", lambda o: pot(o, lambda sh: (sh[0] + 1, sh[1]))), before_c=False, assert_=False)
+    ent(G + ".get_potential", "vfeat-with-fewer-grid-points", pot_ok, ("get_potential", lambda o: pot(o, lambda sh: (sh[0], sh[1] - 8))), before_c=False)
+    # grids indexer
+    nag = ind.all_weights.size
+
+    def red(theta_shape=None, gq_shape=None, off=0, a2y=True, mut=None):
+        th = np.zeros(theta_shape or (ind.nrad, ind.nlm, 3))
+        gq = np.ones(gq_shape or (nag, 4))
+        if mut:
+            th, gq = mut(th, gq)
+        ind.reduce_angc_ylm_(th, gq, a2y=a2y, offset=off)
+    red_ok = ("reduce_angc_ylm_", lambda o: red(off=1))
+    R = "AtomicGridsIndexer.reduce_angc_ylm_"
+    for kind, fn in (("theta_rlmq-with-wrong-nrad", lambda o: red(theta_shape=(ind.nrad + 1, ind.nlm, 3))),
+                     ("theta_rlmq-with-wrong-nlm", lambda o: red(theta_shape=(ind.nrad, ind.nlm + 1, 3))),
+                     ("theta_rlmq-with-fewer-nlm", lambda o: red(theta_shape=(ind.nrad, max(1, ind.nlm - 3), 3), a2y=False)),
+                     ("theta_gq-with-fewer-grid-points", lambda o: red(gq_shape=(nag - 5, 4))),
+                     ("theta_gq-with-more-grid-points", lambda o: red(gq_shape=(nag + 5, 4), a2y=False)),
+                     ("offset-plus-nalpha-beyond-stride", lambda o: red(off=2)),
+                     ("non-contiguous-array", lambda o: red(mut=lambda th, gq: (th, np.ones((nag, 8))[:, ::2]))),
+                     ("float32-array", lambda o: red(mut=lambda th, gq: (th.astype(np.float32), gq)))):
+        ent(R, kind, red_ok, ("reduce_angc_ylm_", fn), obj=ind)
+    # ATCBasis.convert_rad2orb_
+    def r2o(atco, th_shape=None, p_shape=None, off=0, rad2orb=True, loc=None, rads=None):
+        th = np.zeros(th_shape or (ind.nrad, ind.nlm, 2))
+        p = np.zeros(p_shape or (atco.nao, 4))
+        atco.convert_rad2orb_(th, p, (ind.ra_loc if rad2orb else ind.ar_loc) if loc is None else loc, ind.rad_arr if rads is None else rads, rad2orb=rad2orb, offset=off)
+    C = "ATCBasis.convert_rad2orb_"
+    r2o_ok = ("convert_rad2orb_", lambda o: r2o(o, off=2))
+    for kind, fn in (("p_uq-with-fewer-orbitals", lambda o: r2o(o, p_shape=(o.nao - 1, 4))),
+                     ("p_uq-with-more-orbitals", lambda o: r2o(o, p_shape=(o.nao + 1, 4), rad2orb=False)),
+                     ("theta_rlmq-with-wrong-nrad", lambda o: r2o(o, th_shape=(ind.nrad - 1, ind.nlm, 2))),
+                     ("offset-plus-nalpha-beyond-stride", lambda o: r2o(o, off=3)),
+                     ("negative-offset", lambda o: r2o(o, off=-1)),
+                     ("loc-with-wrong-size", lambda o: r2o(o, loc=np.ascontiguousarray(ind.ar_loc[:-1]), rad2orb=False)),
+                     ("loc-of-the-other-direction", lambda o: r2o(o, loc=ind.ar_loc if ind.nrad != ind.natm + 1 else None, rad2orb=True) if ind.nrad != ind.natm + 1 else (_ for _ in ()).throw(AssertionError("n/a"))),
+                     ("rads-with-wrong-size", lambda o: r2o(o, rads=np.ascontiguousarray(ind.rad_arr[:-1])))):
+        ent(C, kind, r2o_ok, ("convert_rad2orb_", fn), obj=ai if rng.random() < 0.5 else ao)
+    # ConvolutionCollection.multiply_atc_integrals
+    M = type(ccl).__name__ + ".multiply_atc_integrals"
+    nout = ccl.nalpha if ccl.is_vk else ccl.nbeta
+
+    def mul(in_shape, out_shape, fwd):
+        return ccl.multiply_atc_integrals(np.zeros(in_shape), output=np.zeros(out_shape), fwd=fwd)
+    mul_ok = ("multiply_atc_integrals", lambda o: mul((ai.nao, nal), (ao.nao, nout), True))
+    for kind, fn in (("input-with-fewer-orbitals", lambda o: mul((ai.nao - 1, nal), (ao.nao, nout), True)),
+                     ("input-with-fewer-columns", lambda o: mul((ai.nao, nal - 1), (ao.nao, nout), True)),
+                     ("output-with-fewer-orbitals", lambda o: mul((ai.nao, nal), (ao.nao - 1, nout), True)),
+                     ("output-with-fewer-columns", lambda o: mul((ai.nao, nal), (ao.nao, nout - 1), True)),
+                     ("backward-call-with-forward-shapes", lambda o: mul((ai.nao + (1 if ai.nao == ao.nao else 0), nal), (ao.nao, nout), False)),
+                     ("backward-output-with-fewer-orbitals", lambda o: mul((ao.nao, nout), (ai.nao - 1, nal), False))):
+        ent(M, kind, mul_ok, ("multiply_atc_integrals", fn), obj=ccl)
+    # plan coefficient buffers
+    P = type(plan).__name__ + ".get_interpolation_coefficients"
+    arg = plan.get_interpolation_arguments(plan.get_rho_tuple(rho), i=-1)[0]
+    coef_ok = ("get_interpolation_coefficients", lambda o: o.get_interpolation_coefficients(arg, i=-1, vbuf=np.empty(arg.size * nal), dbuf=np.empty(arg.size * nal)))
+    ent(P, "coefficient-buffer-too-small", coef_ok, ("get_interpolation_coefficients", lambda o: o.get_interpolation_coefficients(arg, i=-1, vbuf=np.empty(arg.size * nal - 1))), obj=plan)
+    ent(P, "derivative-buffer-too-small", coef_ok, ("get_interpolation_coefficients", lambda o: o.get_interpolation_coefficients(arg, i=-1, dbuf=np.empty(arg.size * nal - 3))), obj=plan)
+    c = dict(case, part=0, nparts=1, reps=1)
+    _run_catalogue(c, rec, rng, cat)
+
+
+def _run_asan_unsafe(case, rec, rng):
+    """ONE constructor-level size mismatch of a C-backed evaluator per case: if it is accepted the C kernel is told sizes that
+    disagree with the arrays it gets, so the probe runs only under ASan and alone (a crash loses the case in flight)."""
+    from ciderpress.dft import xc_evaluator as xe
+    from ciderpress.models.kernels import DiffConstantKernel, DiffRBF
+    cls, probe = case["cls"], case["probe"]
+    rec.tag("unsafe_probe", "%s:%s" % (cls, probe))
+    n = int(rng.choice([3, 4, 6]))
+    nc = int(rng.choice([5, 12]))
+    N = int(rng.choice([9, 33]))
+    nls = n - 1 if cls == "AntisymRBFEvaluator" else n
+    ls = np.exp(rng.uniform(np.log(0.3), np.log(1.5), size=nls))
+    kern = DiffConstantKernel(1.3) * DiffRBF(ls)
+    dw = {"X1ctrl-wider-than-kernel": 1, "X1ctrl-narrower-than-kernel": -1}.get(probe, 0)
+    da = {"alpha-shorter-than-X1ctrl": -1, "alpha-longer-than-X1ctrl": 1}.get(probe, 0)
+    C = getattr(xe, cls)
+    lead = (2,) if cls == "SpinRBFEvaluator" else ()
+
+    def mk(dw_, da_):
+        ctrl = rng.uniform(-0.5, 1.0, size=lead + (nc, n + dw_))
+        return C(kern, ctrl, rng.normal(size=nc + da_) * 0.5)
+    x = rng.uniform(-0.5, 1.0, size=lead + (N, n))
+    uses = [("__call__", lambda e: e(x)), ("__call__(res,dres)", lambda e: e(x, np.zeros(N), np.zeros(x.shape)))]
+    _judge(rec, cls, probe, (lambda: mk(0, 0), uses), (lambda: mk(dw, da), uses), "unsafe|%s|%s" % (cls, probe),
+           detail={"kernel_length_scales": nls, "X1ctrl": list(lead + (nc, n + dw)), "alpha": nc + da, "X1": list(x.shape)})
+    rec.set_sample({"oracle": "constructor size mismatch of a C-backed evaluator (ASan worker)", "class": cls, "kind": probe, "kernel_length_scales": nls,
+                    "X1ctrl_shape": list(lead + (nc, n + dw)), "alpha_size": nc + da, "X1_shape": list(x.shape)})
